@@ -1,462 +1,1475 @@
-"""C13 orbital-energy fraction algebra and Fock diagonalisation (structural)."""
+"""C13 orbital-energy fraction algebra and Fock diagonalisation (decided by abstract evaluation)."""
 from __future__ import annotations
 
 import ast
+from fractions import Fraction
 
-from ..model import AnalysisError, U, Defs, calls_in, call_name, walk_fn, kwarg, enclosing, enclosing_stmt
-from ..pathcond import conditions
-from . import common
-from .skeleton import skeleton, term_level, polynom_level, obj_level, expr_level
+from ..model import AnalysisError
+from ..symex import Obj
+from ..terms import T, sym, t_mul, t_add, is_num, subterms
+from .c13_model import (World, arg, NAMES, E, lin, tensor, norm, value, same_value, raw, raw_name, substitute, linear_form,
+                        permutation_map, as_self, fmt, frac)
 
 EXPLANATION = (
-    "R13a: compensated sign flips in EriOrbenergy.canonicalize_sign (prefactor and numerator "
-    "negated together; a bracket replaced by Pow(-base, exponent) is paired with a prefactor flip "
-    "under odd exponent; desired signs occ '+', virt '-'). R13b: every symmetriser `acc = x; for "
-    "(p, f) in S: acc += P(x) f` is normalised by 1/(len(S)+1) of the same S (permute_num, "
-    "Term.symmetrize, derivative). R13c: symbolic denominators: writer (symbolic_denominator: "
-    "+1 -> first group, -1 -> second, SymmetricTensor, bra-ket symmetry -1, exponent kept, name "
-    "registered as antisymmetric) and reader (use_explicit_denominators: first group added, second "
-    "subtracted, exponent negated, name de-registered) are inverse. R13d: homomorphism skeleton "
-    "and exponent accounting for use_explicit_denominators, block_diagonalize_fock, "
-    "expand_antisym_eri, expand_intermediates. R13e: split_orb_energy sends every object to exactly "
-    "one of num/denom/remainder as Pow(base, |exponent|); expr multiplies num, eri, pref and "
-    "divides by denom once; bracket/object cancellation lowers the exponent by the multiplicity. "
-    "R13f: Fock rules (off-diagonal blocks zeroed; the index that did not survive the delta is "
-    "substituted, exponent kept; conflicting substitutions refused, targets set). R13g: "
-    "sub-expressions with equal ERI/denominator keep every term once (factor_eri_parts, "
-    "factor_denom, reduce_expr bookkeeping). R13h: bookkeeping of the fraction cancellation (running "
-    "prefactor, bracket subtraction, exponent lowering, leftover numerator added on every way out of the loop).")
+    "Every function is evaluated by the abstract evaluator (sa.symex) over a model of the container algebra "
+    "(sa/rules/c13_model.py): a container is a record that carries a value (sums/products/powers of numbers, index symbols and "
+    "tensor atoms, normalised like sympy's automatic evaluation) and its assumptions; terms, objects, brackets, prefactors, indices "
+    "are derived from the value. The verdicts compare the evaluated result with the expected value written down independently, by "
+    "exact rational evaluation at pseudo-random points (every tensor atom an independent unknown); source spelling never enters. "
+    "R13a: canonicalize_sign on 15 fractions (numerator/brackets with right, wrong, mixed signs; odd/even powers; only_denom): "
+    "pref*num/denom unchanged and afterwards occupied energies added, virtual subtracted; signs that no factor -1 can fix are "
+    "refused; Term.sign table. R13b: permute_num, Term.symmetrize and derivative compute 1/(n+1) (x + sum_P f_P P x) over exactly the "
+    "operations with a factor (only contracted indices, given eri symmetry forwarded); denom_eri_sym decision table (P D = D keeps "
+    "the factor, P D = -D negates it, otherwise None; instance untouched). R13c: D^(U)_(L) (SymmetricTensor, bra-ket symmetry -1) "
+    "stands for 1/(sum e_U - sum e_L): symbolic_denominator(brackets) = 1/denominator and Obj.use_explicit_denominators(D**n) = "
+    "(sum e_U - sum e_L)**(-n) under that meaning (both directions against the same interpretation), registration / "
+    "de-registration of the name, brackets with coefficients other than +-1 refused, Term/Expr.use_symbolic_denominators rebuild "
+    "the term / add every term once. R13d: homomorphism by evaluation on all container levels of use_explicit_denominators, "
+    "block_diagonalize_fock, expand_antisym_eri, expand_intermediates: M(sum t) = sum M(t), M(prod o) = prod M(o), "
+    "M((sum t)**n) = (sum M(t))**n, outer arguments forwarded by parameter name, raw values requested, targets / registrations "
+    "kept; Obj.expand_antisym_eri = ((pr|qs) - (ps|qr))**n with the spin-allowed parts; Obj.expand_intermediates: n separate "
+    "expansions for an integer exponent n > 1, definition**n otherwise, on the indices of the object. R13e: split_orb_energy "
+    "(classification of every object, num*remainder/denom = term, targets), contains_only_orb_energies tables, "
+    "(objects of the remainder keep negative exponents), cancel_denom_brackets / cancel_eri_objects (one power per listing, instance untouched), EriOrbenergy.__init__ (pref*num*eri/denom "
+    "= term, smallest coefficient extracted), factor_and_remove_number, EriOrbenergy.expr. R13f: Obj.block_diagonalize_fock table "
+    "(only f_ov/f_vo vanish; general index keeps the element), Obj.diagonalize_fock table (survivor of delta_pq, exponent kept, "
+    "removed index substituted, off-diagonal 0, both targets: kept, default targets), Term.diagonalize_fock (product, substitutions "
+    "closed under chains and applied, contradictions refused, polynom parent gets product + substitutions, targets set and "
+    "forwarded), Expr.diagonalize_fock (sum, targets kept), polynoms refused. R13g: factor_eri_parts / factor_denom return one "
+    "sub-expression per key term with every matched term transformed by its own substitution / permutation exactly once, "
+    "assumptions kept; find_compatible_eri_parts compares everything but numbers and orbital energies under the targets of the "
+    "full term; reduce_expr conserves the value through its three stages when every vocabulary step is value preserving, refuses "
+    "annihilating substitutions and complex orbitals. R13h: cancel_orb_energy_frac on 17 fractions (weights, powers, shared "
+    "indices, leftovers, signs to fix): the partial fractions add up to pref*eri*num/denom.")
 ASSUMPTIONS = [
-    "cancel_orb_energy_frac, the choice of permutations in permute_num and find_compatible_denom "
-    "are algorithms whose soundness is a runtime statement; only their bookkeeping is checked",
+    "bounded: the functions are evaluated on the listed finite families of fractions / terms / index spaces, not for all inputs",
+    "the vocabulary keeps its contract and is modelled, not analysed here: sympy arithmetic and automatic evaluation, "
+    "Expr(...)/copy/expand/doit/factor (value preserving), subs/permute (index replacement), Term.symmetry, evaluate_deltas, "
+    "KroneckerDelta, order_substitutions, find_compatible_terms, find_compatible_denom, minimize_tensor_indices, "
+    "Intermediates/expand_itmd, _validate_num/_validate_denom",
+    "aliasing: Expr.subs/permute/expand and augmented assignments on an Expr work in place (as in the library), every other "
+    "operation produces a new container; aliasing through containers the model does not see is not decided",
+    "cancel_orb_energy_frac, permute_num and find_compatible_denom are algorithms: only the value of their result (and the listed "
+    "argument forwarding) is decided, not how far they cancel / which permutations they find",
+    "the branch of cancel that adds a non-zero number left in the numerator is unreachable for valid numerators (no constant "
+    "terms) and therefore not exercised",
 ]
 
-EO = "eri_orbenergy:EriOrbenergy."
+EOM = "eri_orbenergy"
+EO = "eri_orbenergy:EriOrbenergy"
+EOd = EO + "."
 EC = "expr_container:"
-
-
-def symmetriser_normalisation(ctx, rule, fnref):
-    fn = ctx.model.fn(fnref)
-    lab = fnref.split(":")[1]
-    loops = []
-    for n in walk_fn(fn):
-        if isinstance(n, ast.For) and any(isinstance(a, ast.AugAssign) and isinstance(a.op, ast.Add) and ".permute(*" in U(a.value)
-                                          for a in n.body):
-            loops.append(n)
-    ctx.floor(rule, f"symmetriser loop in {lab}", len(loops), 1)
-    for lp in loops:
-        s = U(lp.iter)
-        base = s[:-len(".items()")] if s.endswith(".items()") else s
-        want = f"Rational(1,len({base})+1)"
-        found = [c for c in calls_in(fn) if call_name(c) == "Rational" and U(c).replace(" ", "") == want]
-        ctx.check(rule, lp, len(found) == 1, f"{lab}: symmetrised sum over `{base}` divided by len({base}) + 1",
-                  f"{lab}: the sum over the identity and the {base} operations is not normalised by 1/(len({base}) + 1)",
-                  key=f"{lab} normalisation")
-
-
-def r13a(ctx):
-    rule = "R13a"
-    fn = ctx.model.fn(EO + "canonicalize_sign")
-    flips = [n for n in walk_fn(fn, nested=False) if isinstance(n, ast.AugAssign) and U(n.value) == "-1" and isinstance(n.op, ast.Mult)]
-    num = [f for f in flips if U(f.target) == "self._num"]
-    prf = [f for f in flips if U(f.target) == "self._pref"]
-    ok = len(num) == 1 and any(p._parent is num[0]._parent for p in prf)
-    ctx.check(rule, fn, ok, "numerator and prefactor negated together", "numerator sign flip is not compensated in the prefactor",
-              key="num flip")
-    if num:
-        cs = conditions(num[0])
-        ok = ("adjust_sign(self.num)", True) in cs and ("only_denom", False) in cs
-        ctx.check(rule, num[0], ok, "numerator flipped only when its signs are wrong and not only_denom",
-                  "numerator flip condition changed", key="num flip cond")
-    den = [p for p in prf if not (num and p._parent is num[0]._parent)]
-    ok = len(den) == 1 and ("exponent % 2", True) in conditions(den[0]) and ("adjust_sign(bracket)", True) in conditions(den[0])
-    ctx.check(rule, fn, ok, "bracket flip changes the prefactor iff its exponent is odd", "denominator sign compensation changed",
-              key="denom flip")
-    br = [a for a in walk_fn(fn, nested=False) if isinstance(a, ast.Assign) and U(a.targets[0]) == "bracket"]
-    ok = len(br) == 1 and U(br[0].value).replace(" ", "") == "e.Expr(Pow(-1*base,exponent),**bracket.assumptions)" \
-        and ("adjust_sign(bracket)", True) in conditions(br[0])
-    ctx.check(rule, fn, ok, "flipped bracket = (-base)**exponent", "bracket replacement changed", key="bracket flip")
-    acc = [n for n in walk_fn(fn, nested=False) if isinstance(n, ast.AugAssign) and U(n.target) == "denom"]
-    ctx.check(rule, fn, len(acc) == 1 and isinstance(acc[0].op, ast.Mult) and U(acc[0].value) == "bracket"
-              and U(enclosing(acc[0], ast.For).iter) == "self.denom_brackets" and acc[0]._parent is enclosing(acc[0], ast.For),
-              "every bracket multiplied back once", "denominator rebuild changed", key="denom rebuild")
-    adj = ctx.model.fn(EO + "canonicalize_sign.adjust_sign")
-    ds = [a for a in common.assigns_to(adj, "desired_sign")]
-    ctx.check(rule, adj, len(ds) == 1 and U(ds[0].value) == "{'o': 'plus', 'v': 'minus'}", "occupied '+', virtual '-'",
-              "desired signs changed", key="desired")
-    cmp_ = [n for n in walk_fn(adj) if isinstance(n, ast.If) and U(n.test) == "sign[0] != desired_sign[ov]"]
-    ctx.check(rule, adj, len(cmp_) == 1, "flip requested iff the sign differs from the desired one", "sign comparison changed",
-              key="compare")
-    ts = ctx.model.fn(EC + "Term.sign")
-    r = common.returns_of(ts)
-    ctx.check(rule, ts, U(r[0].value) == "'minus' if self.prefactor < 0 else 'plus'", "sign word from the prefactor", "Term.sign changed",
-              key="term sign")
-
-
-def r13b(ctx):
-    rule = "R13b"
-    symmetriser_normalisation(ctx, rule, EO + "permute_num")
-    symmetriser_normalisation(ctx, rule, EC + "Term.symmetrize")
-    symmetriser_normalisation(ctx, rule, "derivative:derivative")
-    fn = ctx.model.fn(EO + "permute_num")
-    st = [a for a in common.assigns_to(fn, "num") if isinstance(a, ast.Assign)]
-    ctx.check(rule, fn, bool(st) and U(st[0].value) == "self.num.copy()", "starts from the unpermuted numerator", "start changed",
-              key="permute_num start")
-    lp = [n for n in walk_fn(fn) if isinstance(n, ast.For) and U(n.iter) == "permutations"]
-    ok = len(lp) == 1 and U(lp[0].body[0]) == "num += self.num.copy().permute(*perms) * factor"
-    ctx.check(rule, fn, ok, "each operation applied to the original numerator with its factor", "permute_num loop changed", key="permute_num loop")
-    pm = [a for a in common.assigns_to(fn, "permutations")]
-    ok = len(pm) == 1 and isinstance(pm[0].value, ast.ListComp) and [U(i) for i in pm[0].value.generators[0].ifs] == ["factor is not None"] \
-        and "only_contracted=True" in U(pm[0].value.generators[0].iter)
-    ctx.check(rule, fn, ok, "only common symmetries of ERI and denominator over contracted indices", "selection of permutations changed",
-              key="permute_num selection")
-    mp = [n for n in walk_fn(fn) if isinstance(n, ast.AugAssign) and U(n.target) == "self._pref"]
-    ctx.check(rule, fn, len(mp) == 1 and isinstance(mp[0].op, ast.Mult) and U(mp[0].value) == "additional_pref",
-              "extracted prefactor moved to pref", "prefactor bookkeeping changed", key="permute_num pref")
-    sy = ctx.model.fn(EC + "Term.symmetrize")
-    lp = [n for n in walk_fn(sy) if isinstance(n, ast.For)]
-    ok = len(lp) == 1 and U(lp[0].body[0]) == "res += self.permute(*perm).sympy * factor" and U(lp[0].iter) == "symmetry.items()"
-    ctx.check(rule, sy, ok, "symmetrize: each operation once with its factor", "symmetrize loop changed", key="symmetrize loop")
-    s0 = [a for a in common.assigns_to(sy, "symmetry")]
-    ctx.check(rule, sy, len(s0) == 1 and U(s0[0].value) == "self.symmetry(only_contracted=True)", "only contracted indices",
-              "symmetrize symmetry source changed", key="symmetrize source")
-    des = ctx.model.fn(EO + "denom_eri_sym")
-    tab = {}
-    for a in walk_fn(des):
-        if isinstance(a, ast.Assign) and U(a.targets[0]) == "ret[perms]":
-            cs = conditions(a)
-            k = "minus" if ("denom - perm_denom is S.Zero", True) in cs else "plus" if ("denom + perm_denom is S.Zero", True) in cs else "none"
-            tab[k] = U(a.value)
-    ctx.check(rule, des, tab == {"minus": "factor", "plus": "factor * -1", "none": "None"},
-              "P D = D keeps the ERI factor, P D = -D negates it, else None", f"denominator symmetry table {tab}", key="denom_eri_sym")
-
-
-def r13c(ctx):
-    rule = "R13c"
-    w = ctx.model.fn(EO + "symbolic_denominator")
-    adds = {}
-    for c in calls_in(w):
-        if call_name(c) == "add" and U(c.func.value).startswith("signs["):
-            cs = conditions(c)
-            which = "one" if ("pref is S.One", True) in cs else "minus" if ("pref is S.NegativeOne", True) in cs else "?"
-            adds[which] = U(c.func.value)
-    ctx.check(rule, w, adds == {"one": "signs['+']", "minus": "signs['-']"}, "prefactor +1 -> '+' group, -1 -> '-' group",
-              f"sign classification {adds}", key="writer signs")
-    st = [c for c in calls_in(w) if call_name(c) in ("SymmetricTensor", "AntiSymmetricTensor")]
-    ok = len(st) == 1 and call_name(st[0]) == "SymmetricTensor" and [U(a) for a in st[0].args] == \
-        ["tensor_names.sym_orb_denom", "signs['+']", "signs['-']", "-1"]
-    ctx.check(rule, w, ok, "D = SymmetricTensor(name, added, subtracted, bra-ket symmetry -1)",
-              f"symbolic denominator built as `{U(st[0]) if st else None}`", key="writer tensor")
-    pw = [c for c in calls_in(w) if call_name(c) == "Pow"]
-    ok = len(pw) == 1 and U(pw[0].args[1]) == "exponent"
-    ex = [a for a in common.assigns_to(w, "exponent")]
-    ok = ok and len(ex) == 1 and U(ex[0].value) == "1 if isinstance(bracket, e.Expr) else bracket.exponent"
-    ctx.check(rule, w, ok, "exponent of the bracket kept", "exponent of the symbolic denominator changed", key="writer exponent")
-    reg = [c for c in calls_in(w) if call_name(c) == "set_antisym_tensors"]
-    ok = len(reg) == 1 and "tensor_names.sym_orb_denom" in U(reg[0].args[0]) and ("has_symbolic_denom", True) in conditions(reg[0])
-    ctx.check(rule, w, ok, "name registered as bra-ket antisymmetric", "registration of the symbolic denominator changed", key="writer register")
-    mul = [n for n in walk_fn(w) if isinstance(n, ast.AugAssign) and U(n.target) == "symbolic_denom"]
-    ctx.check(rule, w, len(mul) == 1 and isinstance(mul[0].op, ast.Mult) and U(enclosing(mul[0], ast.For).iter) == "self.denom_brackets",
-              "one tensor per bracket", "bracket iteration changed", key="writer brackets")
-    r = ctx.model.fn(EC + "Obj.use_explicit_denominators")
-    ops = {}
-    for n in walk_fn(r):
-        if isinstance(n, ast.AugAssign) and U(n.target) == "explicit_denom":
-            lp = enclosing(n, ast.For)
-            ops[U(lp.iter)] = (type(n.op).__name__, U(n.value).replace(" ", "").replace("\n", ""))
-    want = {"tensor.upper": ("Add", "NonSymmetricTensor(tensor_names.orb_energy,(s,))"),
-            "tensor.lower": ("Sub", "NonSymmetricTensor(tensor_names.orb_energy,(s,))")}
-    ctx.check(rule, r, ops == want, "first group added, second group subtracted", f"explicit denominator built as {ops}", key="reader signs")
-    pw = [a for a in walk_fn(r) if isinstance(a, ast.Assign) and U(a.targets[0]) == "explicit_denom" and "Pow(" in U(a.value)]
-    ok = len(pw) == 1 and U(pw[0].value).replace(" ", "") == "Pow(explicit_denom,-exponent)"
-    ctx.check(rule, r, ok, "exponent negated (D stands for the inverse bracket)", "exponent of the explicit denominator changed",
-              key="reader exponent")
-    g = [n for n in walk_fn(r) if isinstance(n, ast.If) and U(n.test) == "self.name == tensor_names.sym_orb_denom"]
-    ctx.check(rule, r, len(g) == 1, "only the symbolic denominator is replaced", "name test changed", key="reader name")
-    z = [a for a in walk_fn(r) if isinstance(a, ast.Assign) and U(a.targets[0]) == "explicit_denom" and U(a.value) == "0"]
-    ctx.check(rule, r, len(z) == 1, "bracket starts at 0", "bracket initialisation changed", key="reader init")
-    ex = ctx.model.fn(EC + "Expr.use_explicit_denominators")
-    rm = [c for c in calls_in(ex) if call_name(c) == "remove" and U(c.func.value) == "self._antisym_tensors"]
-    ctx.check(rule, ex, len(rm) == 1 and U(rm[0].args[0]) == "tensor_names.sym_orb_denom", "name de-registered",
-              "de-registration changed", key="reader deregister")
-    # Term.use_symbolic_denominators : D * pref * num * eri
-    t = ctx.model.fn(EC + "Term.use_symbolic_denominators")
-    ret = common.returns_of(t)
-    fs = sorted(U(f) for f in _flatten(ret[0].value))
-    ctx.check(rule, t, fs == ["symbolic_denom", "term.eri.sympy", "term.num.sympy", "term.pref"], "D * pref * num * eri",
-              f"symbolic term assembled from {fs}", key="symbolic product")
-    e_ = ctx.model.fn(EC + "Expr.use_symbolic_denominators")
-    lp = [n for n in walk_fn(e_) if isinstance(n, ast.For) and U(n.iter) == "self.terms"]
-    ok = len(lp) == 1 and any(isinstance(x, ast.AugAssign) and U(x) == "symbolic_denom += term.sympy" for x in lp[0].body) \
-        and not any(isinstance(x, (ast.Continue, ast.Break)) for x in ast.walk(lp[0]))
-    ctx.check(rule, e_, ok, "every term converted and added once", "term loop of use_symbolic_denominators changed", key="symbolic expr")
+IDX = {"i": "occ", "j": "occ", "k": "occ", "l": "occ", "a": "virt", "b": "virt", "c": "virt", "d": "virt",
+       "p": "general", "q": "general"}
 
 
 def _flatten(n):
+    """factors of a product expression (AST helper kept for C11)"""
     if isinstance(n, ast.BinOp) and isinstance(n.op, ast.Mult):
         return _flatten(n.left) + _flatten(n.right)
     return [n]
 
 
-def r13d(ctx):
-    rule = "R13d"
-    skeleton(ctx, rule, "use_explicit_denominators")
-    skeleton(ctx, rule, "block_diagonalize_fock", allow_zero=True)
-    skeleton(ctx, rule, "expand_antisym_eri")
-    # expand_intermediates: Expr level accumulates Expr objects
-    term_level(ctx, rule, "expand_intermediates")
-    polynom_level(ctx, rule, "expand_intermediates")
-    fn = ctx.model.fn(EC + "Expr.expand_intermediates")
-    lp = [n for n in walk_fn(fn) if isinstance(n, ast.For) and U(n.iter) == "self.terms"]
-    ok = len(lp) == 1 and len(lp[0].body) == 1 and U(lp[0].body[0]) == f"expanded += {U(lp[0].target)}.expand_intermediates(fully_expand=fully_expand)"
-    ctx.check(rule, fn, ok, "Expr.expand_intermediates: every term expanded once, flag forwarded", "Expr.expand_intermediates loop changed",
-              key="Expr.expand_intermediates")
-    ob = ctx.model.fn(EC + "Obj.expand_intermediates")
-    pw = [a for a in walk_fn(ob) if isinstance(a, ast.Assign) and U(a.targets[0]) == "expanded" and "Pow(" in U(a.value)]
-    ex = [a for a in walk_fn(ob) if isinstance(a, ast.Assign) and U(a.targets[0]) == "exponent"]
-    ok = len(pw) == 1 and U(pw[0].value) in ("Pow(expanded, self.exponent)", "Pow(expanded, exponent)") and (
-        U(pw[0].value).endswith("self.exponent)") or (len(ex) == 1 and U(ex[0].value) == "self.exponent"))
-    ctx.check(rule, ob, ok, "expanded definition raised to the object's exponent", "exponent of an expanded intermediate lost",
-              key="Obj.expand_intermediates exponent")
-    # a definition with summation indices must be expanded once per factor (fresh indices each time)
-    guarded = bool(pw) and any((not pol) and "exponent > 1" in t for t, pol in conditions(pw[0]))
-    rep = [c for c in calls_in(ob) if call_name(c) == "Mul" and c.args and isinstance(c.args[0], ast.Starred)
-           and isinstance(c.args[0].value, (ast.ListComp, ast.GeneratorExp)) and call_name(c.args[0].value.elt) == "expand_itmd"
-           and "range(" in U(c.args[0].value.generators[0].iter) and "exponent" in U(c.args[0].value.generators[0].iter)]
-    ctx.check(rule, ob, guarded and len(rep) == 1, "exponent n > 1: product of n separate expansions (fresh contracted indices each)",
-              "an intermediate with exponent n > 1 is expanded once and raised to the power n: all factors share the contracted indices "
-              "of the definition (each summation index occurs 2n times)", key="Obj.expand_intermediates fresh")
-    call = [c for c in calls_in(ob) if call_name(c) == "expand_itmd"]
-    ok = len(call) >= 1 and all({k.arg: U(k.value) for k in c.keywords} == {"indices": "self.idx", "return_sympy": "True",
-                                                                          "fully_expand": "fully_expand"} for c in call)
-    ctx.check(rule, ob, ok, "definition expanded on the object's indices", "expand_itmd arguments changed", key="Obj.expand_intermediates call")
+# ------------------------------------------------------------------------------------------------ helpers
 
+def B(**c):
+    """bracket  sum_i c_i e_i"""
+    return lin(c)
+
+
+B1 = dict(i=1, j=1, a=-1, b=-1)
+B2 = dict(k=1, c=-1)
+B3 = dict(i=1, a=-1)
+
+
+def eo_self(w, pref, num, denom, eri, **extra):
+    """EriOrbenergy instance: prefactor, numerator (Expr), denominator (Expr), remainder (Term)."""
+    ass = dict(target_idx=None)
+    n = w.expr(num, **ass)
+    d = w.expr(denom, **ass)
+    r = w.expr(eri, **ass)
+    me = Obj(EO, "self")
+    me.attrs.update({"_num": n, "_denom": d, "_eri": w.terms_of(r)[0], "_pref": frac(pref), "$id": True})
+    me.attrs.update(extra)
+    return me
+
+
+def eo_value(me):
+    return norm(t_mul(me.attrs["_pref"], raw(me.attrs["_num"]), raw(me.attrs["_eri"]), T("pow", raw(me.attrs["_denom"]), -1)))
+
+
+def returned(ctx, rule, fn, outs, what, key):
+    """The outcomes of a scenario that must return: raising paths are reported."""
+    rets = [o for o in outs if o.kind == "return"]
+    bad = [o for o in outs if o.kind != "return"]
+    if bad or not rets:
+        ctx.bad(rule, fn, f"{what}: valid input is refused ({bad[0].exc if bad else 'no outcome'})", key=f"{key} refused")
+    return rets
+
+
+def vcheck(ctx, rule, fn, got, want, fact, what, key, interp=None):
+    try:
+        ok = same_value(got, want, interp)
+    except AnalysisError:
+        ok = False
+    return ctx.check(rule, fn, ok, fact, f"{what}: got {fmt(got)}, expected the value of {fmt(want)}", key=key)
+
+
+ERI = tensor("AntiSymmetricTensor", NAMES["eri"], ("i", "j"), ("a", "b"), 0)
+TAMP = tensor("Amplitude", "t1", ("k",), ("c",), 0)
+
+
+# ------------------------------------------------------------------------------------------------ R13e
 
 def r13e(ctx):
     rule = "R13e"
-    fn = ctx.model.fn(EC + "Term.split_orb_energy")
-    keys = {}
-    for a in walk_fn(fn):
-        if isinstance(a, ast.Assign) and U(a.targets[0]) == "key":
-            cs = conditions(a)
-            k = "number" if ("o.sympy.is_number", True) in cs else "orb" if ("o.contains_only_orb_energies", True) in cs else "other"
-            keys[k] = U(a.value)
-    ctx.check(rule, fn, keys == {"number": "'num'", "orb": "'denom' if exponent < 0 else 'num'", "other": "'remainder'"},
-              "numbers -> num; orbital energies -> denom iff negative exponent; rest -> remainder", f"classification {keys}", key="split keys")
-    mul = [n for n in walk_fn(fn) if isinstance(n, ast.AugAssign) and U(n.target) == "ret[key]"]
-    ok = len(mul) == 1 and isinstance(mul[0].op, ast.Mult) and U(mul[0].value).replace(" ", "") == "Pow(base,abs(exponent))" \
-        and mul[0]._parent is enclosing(mul[0], ast.For)
-    ctx.check(rule, fn, ok, "every object multiplied into exactly one part as base**|exponent|", "split accumulation changed", key="split mul")
-    be = [a for a in walk_fn(fn) if isinstance(a, ast.Assign) and U(a.targets[0]) == "(base, exponent)"]
-    ctx.check(rule, fn, len(be) == 1 and U(be[0].value) == "o.base_and_exponent", "base/exponent of the object", "changed", key="split be")
-    oo = ctx.model.fn(EC + "Obj.contains_only_orb_energies")
-    r = common.returns_of(oo)
-    ctx.check(rule, oo, U(r[0].value) == "self.name == tensor_names.orb_energy and len(self.idx) == 1", "orbital energy = e with one index",
-              "orbital-energy test changed", key="only orb")
-    ex = ctx.model.fn(EO + "expr")
-    r = common.returns_of(ex)
-    v = r[0].value
+    # -- recombination  num * eri / denom * pref
+    fn = ctx.model.fn(EOd + "expr")
+    w = World(IDX)
+    sx = w.make(ctx, "EriOrbenergy.expr")
+    st = {}
 
-    def parts(n, sign=1):
-        if isinstance(n, ast.BinOp) and isinstance(n.op, ast.Mult):
-            return parts(n.left, sign) + parts(n.right, sign)
-        if isinstance(n, ast.BinOp) and isinstance(n.op, ast.Div):
-            return parts(n.left, sign) + parts(n.right, -sign)
-        return [(U(n), sign)]
-    got = sorted(parts(v))
-    ctx.check(rule, ex, got == sorted([("self.num", 1), ("self.eri", 1), ("self.denom", -1), ("self.pref", 1)]),
-              "num * eri / denom * pref", f"term rebuilt as {got}", key="rebuild")
-    for name, lst in (("cancel_denom_brackets", "denom"), ("cancel_eri_objects", "objects")):
-        f = ctx.model.fn(EO + name)
-        ifs = [n for n in walk_fn(f) if isinstance(n, ast.If) and "new_exp" in U(n.test)]
-        ok = len(ifs) == 1 and U(ifs[0].test).replace(" ", "").replace("(", "").replace(")", "") == "new_exp:=exponent-n==0" \
-            and U(ifs[0].body[0]) == f"{lst}[idx] = None" and U(ifs[0].orelse[0]).replace(" ", "") == f"{lst}[idx]=Pow(base,new_exp)"
-        ctx.check(rule, f, ok, f"{name}: exponent lowered by the multiplicity, dropped at 0", f"{name}: exponent bookkeeping changed", key=name)
-        lp = [n for n in walk_fn(f) if isinstance(n, ast.For)]
-        ctx.check(rule, f, bool(lp) and "Counter(" in U(lp[0].iter) and ".items()" in U(lp[0].iter), f"{name}: multiplicity from Counter",
-                  f"{name}: multiplicity source changed", key=f"{name} counter")
-    init = ctx.model.fn(EO + "__init__")
-    pf = [a for a in walk_fn(init) if isinstance(a, ast.Assign) and U(a.targets[0]) == "self._pref"]
-    ctx.check(rule, init, len(pf) == 1 and U(pf[0].value) == "min([t.prefactor for t in term['num'].terms], key=abs)",
-              "prefactor = smallest |prefactor| of the numerator", "prefactor extraction changed", key="pref")
-    nm = {}
-    for a in walk_fn(init):
-        if isinstance(a, ast.Assign) and U(a.targets[0]) == "self._num":
-            nm[U(a.value)] = True
-    ctx.check(rule, init, set(nm) == {"term['num']", "factor_and_remove_number(term['num'], self._pref)"},
-              "numerator divided by the extracted prefactor", f"numerator variants {sorted(nm)}", key="num")
-    far = ctx.model.fn("eri_orbenergy:factor_and_remove_number")
-    body = [U(s) for s in common.strip_docstring(far.body)]
-    ctx.check(rule, far, body == ["expr.factor(num=number)", "expr /= number", "expr.doit()",
-                                  "expr._expr = nsimplify(expr.sympy, rational=True)", "return expr"],
-              "factor the number, divide by it", f"factor_and_remove_number body {body}", key="factor number")
+    def args():
+        st["me"] = eo_self(w, Fraction(-3, 2), B(i=1, a=-1), norm(t_mul(B(**B1), T("pow", B(**B2), 2))), ERI)
+        st["want"] = eo_value(st["me"])
+        return dict(self=st["me"])
+    for o in returned(ctx, rule, fn, sx.run(fn, args), "EriOrbenergy.expr", "rebuild"):
+        vcheck(ctx, rule, fn, o.value, st["want"], "expr = pref * num * eri / denom", "recombined term", "rebuild")
+
+    # -- splitting
+    fn = ctx.model.fn(EC + "Term.split_orb_energy")
+    cases = {
+        "full": t_mul(Fraction(-1, 2), T("pow", ERI, 2), TAMP, E("k"), T("pow", B(**B1), -2), T("pow", B(**B2), -1),
+                      T("pow", B(i=1, a=1), 2), T("pow", E("a"), -1), E("c")),
+        "orb exponent 1": t_mul(ERI, B(**B3)),
+        "orb exponent -1": t_mul(ERI, T("pow", B(**B3), -1)),
+        "single energy": t_mul(3, E("i")),
+        "number": 5,
+        "no fraction": t_mul(2, ERI, TAMP),
+        "tensor in the denominator": t_mul(ERI, T("pow", TAMP, -1), E("i"), T("pow", B(**B3), -1)),
+        "squared tensor in the denominator": t_mul(Fraction(1, 2), T("pow", ERI, -2), TAMP, T("pow", B(**B1), -2)),
+        "only a tensor in the denominator": T("pow", TAMP, -1),
+    }
+    for name, val in cases.items():
+        w = World(IDX)
+        sx = w.make(ctx, "Term.split_orb_energy")
+
+        def args(val=val):
+            ex = w.expr(val)
+            t = w.terms_of(ex)[0]
+            st["objs"] = w.objects_of(t)
+            return dict(self=as_self(w, t, EC + "Term", names=("assumptions", "target"), objects=st["objs"]))
+        for o in returned(ctx, rule, fn, sx.run(fn, args), f"split_orb_energy[{name}]", f"split {name}"):
+            res = o.value
+            if not (isinstance(res, dict) and set(res) == {"num", "denom", "remainder"}):
+                ctx.bad(rule, fn, f"split_orb_energy[{name}] returns {fmt(res)}", key=f"split {name} shape")
+                continue
+            want = {"num": [], "denom": [], "remainder": []}
+            for ob in st["objs"]:
+                v = ob.attrs["$value"]
+                base, e = w.attr(None, ob, "base_and_exponent", None)
+                if is_num(v):
+                    want["num"].append(v)
+                elif w.attr(None, ob, "contains_only_orb_energies", None):
+                    want["denom" if e < 0 else "num"].append(T("pow", base, abs(e)))
+                else:
+                    want["remainder"].append(v)
+            for k in want:
+                vcheck(ctx, rule, fn, res[k], norm(t_mul(*want[k])) if want[k] else 1,
+                       f"{k}: numbers and orbital energies with positive exponent -> num, orbital energies with negative "
+                       "exponent -> denom (as base**|n|), everything else -> remainder with its own (signed) exponent",
+                       f"split_orb_energy[{name}]: part `{k}`", key=f"split {name} {k}")
+            vcheck(ctx, rule, fn, norm(t_mul(raw(res["num"]), raw(res["remainder"]), T("pow", raw(res["denom"]), -1))), val,
+                   "num * remainder / denom is the term", f"split_orb_energy[{name}]: recombined parts", key=f"split {name} value")
+            tg = [w.assumptions_of(res[k]).get("target_idx") if isinstance(res[k], Obj) else None for k in res]
+            ctx.check(rule, fn, all(t is not None and [raw_name(x) for x in t] == [raw_name(x) for x in w.target_of(st["objs"][0].attrs["$parent"])]
+                                    for t in tg),
+                      "the parts carry the target indices of the term", f"split_orb_energy[{name}]: parts have targets {tg}",
+                      key=f"split {name} target")
+
+    # -- what counts as an orbital energy
+    fn = ctx.model.fn(EC + "Obj.contains_only_orb_energies")
+    table = {"e_i": (E("i"), True), "e_i**-2": (T("pow", E("i"), -2), True), "f_ij": (tensor("AntiSymmetricTensor", NAMES["fock"], ("i",), ("j",), 1), False),
+             "e_ij": (tensor("NonSymmetricTensor", NAMES["orb_energy"], ("i", "j")), False), "V": (ERI, False),
+             "x_i": (tensor("NonSymmetricTensor", "x", ("i",)), False)}
+    for name, (val, want) in table.items():
+        w = World(IDX)
+        sx = w.make(ctx, "Obj.contains_only_orb_energies")
+
+        def args(val=val):
+            ob = w.objects_of(w.terms_of(w.expr(val))[0])[0]
+            return dict(self=as_self(w, ob, EC + "Obj", names=("name", "idx", "sympy", "base", "exponent")))
+        for o in returned(ctx, rule, fn, sx.run(fn, args), f"contains_only_orb_energies[{name}]", f"only orb {name}"):
+            ctx.check(rule, fn, o.value is want, f"{name}: orbital energy = tensor e with one index -> {want}",
+                      f"Obj.contains_only_orb_energies is {o.value} for {name}", key=f"only orb {name}")
+    for cls, val, want in (("Term", t_mul(-1, E("i")), True), ("Term", t_mul(2, E("i"), ERI), False),
+                           ("Polynom", T("pow", B(**B1), -1), True), ("Polynom", norm(t_add(E("i"), ERI)), False)):
+        fn = ctx.model.fn(f"{EC}{cls}.contains_only_orb_energies")
+        w = World(IDX)
+        sx = w.make(ctx, f"{cls}.contains_only_orb_energies")
+
+        def args(val=val, cls=cls):
+            t = w.terms_of(w.expr(val))[0]
+            if cls == "Term":
+                return dict(self=as_self(w, t, EC + "Term", names=("objects",)))
+            t = w.terms_of(w.expr(t_mul(TAMP, val)))[0]
+            pol = [x for x in w.objects_of(t) if x.attrs["$kind"] == "polynom"][0]
+            return dict(self=as_self(w, pol, EC + "Polynom", names=("terms", "exponent")))
+        for o in returned(ctx, rule, fn, sx.run(fn, args), f"{cls}.contains_only_orb_energies", f"only orb {cls} {fmt(val)}"):
+            ctx.check(rule, fn, o.value is want, f"{cls} {fmt(val)}: only orbital energies -> {want}",
+                      f"{cls}.contains_only_orb_energies is {o.value} for {fmt(val)}", key=f"only orb {cls} {fmt(val)}")
+
+    # -- cancelling brackets / objects by position
+    den3 = norm(t_mul(T("pow", B(**B1), 3), B(**B2), T("pow", B(**B3), 2)))
+    for name, den, idxs in (("three brackets", den3, [0, 0, 2, 1]), ("three brackets, one hit", den3, [2]),
+                            ("single bracket", B(**B1), [0]), ("single power", T("pow", B(**B1), 2), [0]), ("nothing", den3, [])):
+        fn = ctx.model.fn(EOd + "cancel_denom_brackets")
+        w = World(IDX)
+        sx = w.make(ctx, "cancel_denom_brackets")
+
+        def args(den=den, idxs=idxs):
+            st["me"] = eo_self(w, 1, 1, den, ERI)
+            return dict(self=st["me"], braket_idx_list=list(idxs))
+        for o in returned(ctx, rule, fn, sx.run(fn, args), f"cancel_denom_brackets[{name}]", f"cancel_denom_brackets {name}"):
+            me = st["me"]
+            d = me.attrs["_denom"]
+            dv = d.attrs["$value"]
+            if isinstance(dv, T) and dv.op == "mul":
+                brs = [x.attrs["$value"] for x in w.objects_of(w.terms_of(d)[0])]
+            else:
+                brs = [dv]
+            be = [(x.args[0], x.args[1]) if isinstance(x, T) and x.op == "pow" else (x, 1) for x in brs]
+            want = norm(t_mul(*[T("pow", b, e - idxs.count(i)) for i, (b, e) in enumerate(be)])) if be else 1
+            vcheck(ctx, rule, fn, o.value, want, "every listed bracket loses one power per listing; untouched brackets stay",
+                   f"cancel_denom_brackets[{name}] with positions {idxs}", key=f"cancel_denom_brackets {name}")
+            vcheck(ctx, rule, fn, me.attrs["_denom"], den, "the denominator of the instance is not modified",
+                   f"cancel_denom_brackets[{name}]: denominator of the instance afterwards", key=f"cancel_denom_brackets {name} pure")
+    rem = norm(t_mul(T("pow", ERI, 2), TAMP, tensor("NonSymmetricTensor", "x", ("i",))))
+    for name, idxs in (("two objects", [0, 2]), ("twice", [0, 0]), ("nothing", [])):
+        fn = ctx.model.fn(EOd + "cancel_eri_objects")
+        w = World(IDX)
+        sx = w.make(ctx, "cancel_eri_objects")
+
+        def args(idxs=idxs):
+            st["me"] = eo_self(w, 1, 1, 1, rem)
+            return dict(self=st["me"], obj_idx_list=list(idxs))
+        for o in returned(ctx, rule, fn, sx.run(fn, args), f"cancel_eri_objects[{name}]", f"cancel_eri_objects {name}"):
+            obs = [x.attrs["$value"] for x in w.objects_of(st["me"].attrs["_eri"])]
+            be = [(x.args[0], x.args[1]) if isinstance(x, T) and x.op == "pow" else (x, 1) for x in obs]
+            want = norm(t_mul(*[T("pow", b, e - idxs.count(i)) for i, (b, e) in enumerate(be)]))
+            vcheck(ctx, rule, fn, o.value, want, "every listed object loses one power per listing",
+                   f"cancel_eri_objects[{name}] with positions {idxs}", key=f"cancel_eri_objects {name}")
+
+    # -- construction: prefactor extraction
+    fn = ctx.model.fn(EOd + "__init__")
+    far = ctx.model.fn(f"{EOM}:factor_and_remove_number")
+    for name, numc in (("halves", dict(i=Fraction(3, 2), a=Fraction(-1, 2))), ("twos", dict(i=2, j=2, a=-2, b=-2)),
+                       ("unit", dict(i=1, a=-1)), ("negative unit", dict(i=-1, a=1)), ("mixed", dict(i=Fraction(1, 2), a=-3))):
+        w = World(IDX)
+        w.extra_hooks["split_orb_energy"] = lambda sx, a, kw: st["parts"]
+        w.extra_hooks["factor_and_remove_number"] = lambda sx, a, kw: _far_model(w, sx, a, kw)
+        sx = w.make(ctx, "EriOrbenergy.__init__")
+
+        def args(numc=numc):
+            den = norm(t_mul(B(**B1), T("pow", B(**B2), 2)))
+            st["parts"] = {"num": w.expr(lin(numc)), "denom": w.expr(den), "remainder": w.expr(ERI)}
+            st["val"] = norm(t_mul(lin(numc), ERI, T("pow", den, -1)))
+            st["me"] = Obj(EO, "self")
+            st["me"].attrs["$id"] = True
+            return dict(self=st["me"], term=w.terms_of(w.expr(st["val"]))[0])
+        for o in returned(ctx, rule, fn, sx.run(fn, args), f"EriOrbenergy[{name}]", f"init {name}"):
+            a = st["me"].attrs
+            if not all(k in a for k in ("_pref", "_num", "_denom", "_eri")):
+                ctx.bad(rule, fn, f"EriOrbenergy[{name}]: attributes {sorted(k for k in a if k.startswith('_'))}", key=f"init {name} shape")
+                continue
+            vcheck(ctx, rule, fn, eo_value(st["me"]), st["val"], "pref * num * eri / denom is the term",
+                   f"EriOrbenergy[{name}]: pref={a['_pref']}, num={fmt(a['_num'])}", key=f"init {name} value")
+            lf = linear_form(raw(a["_num"]))
+            m = min(abs(c) for c in numc.values())
+            ctx.check(rule, fn, is_num(a["_pref"]) and abs(a["_pref"]) == m and lf is not None and min(abs(c) for c in lf.values()) == 1,
+                      "prefactor = numerator coefficient of smallest magnitude; the smallest coefficient left in the numerator is 1",
+                      f"EriOrbenergy[{name}]: prefactor {a['_pref']} extracted from {fmt(lin(numc))}, numerator left {fmt(a['_num'])}",
+                      key=f"init {name} pref")
+    # number numerators
+    for name, numv in (("numerator 1", 1), ("numerator 0", 0), ("numerator 1/4", Fraction(1, 4))):
+        w = World(IDX)
+        w.extra_hooks["split_orb_energy"] = lambda sx, a, kw: st["parts"]
+        w.extra_hooks["factor_and_remove_number"] = lambda sx, a, kw: _far_model(w, sx, a, kw)
+        sx = w.make(ctx, "EriOrbenergy.__init__")
+
+        def args(numv=numv):
+            st["parts"] = {"num": w.expr(numv), "denom": w.expr(B(**B1)), "remainder": w.expr(ERI)}
+            st["val"] = norm(t_mul(numv, ERI, T("pow", B(**B1), -1)))
+            st["me"] = Obj(EO, "self")
+            st["me"].attrs["$id"] = True
+            return dict(self=st["me"], term=w.terms_of(w.expr(st["val"] if numv else ERI))[0])
+        for o in returned(ctx, rule, fn, sx.run(fn, args), f"EriOrbenergy[{name}]", f"init {name}"):
+            vcheck(ctx, rule, fn, eo_value(st["me"]), st["val"], "pref * num * eri / denom is the term",
+                   f"EriOrbenergy[{name}]: pref={st['me'].attrs.get('_pref')}, num={fmt(st['me'].attrs.get('_num'))}",
+                   key=f"init {name} value")
+    # -- factor_and_remove_number: value / number
+    w = World(IDX)
+    sx = w.make(ctx, "factor_and_remove_number")
+
+    def args():
+        st["e"] = w.expr(lin(dict(i=Fraction(3, 2), a=Fraction(-1, 2))))
+        return dict(expr=st["e"], number=Fraction(-1, 2))
+    for o in returned(ctx, rule, far, sx.run(far, args), "factor_and_remove_number", "factor number"):
+        got = o.value
+        if isinstance(got, Obj) and "_expr" in got.attrs and "$value" in got.attrs:
+            got = got.attrs["_expr"]
+        vcheck(ctx, rule, far, got, lin(dict(i=-3, a=1)), "the expression divided by the number",
+               "factor_and_remove_number(3/2 e_i - 1/2 e_a, -1/2)", key="factor number")
+
+
+def _far_model(w, sx, a, kw):
+    """contract of factor_and_remove_number: expr / number"""
+    e = arg(a, kw, 0, "expr")
+    n = arg(a, kw, 1, "number")
+    w.log.append(("factor_and_remove_number", (e, n)))
+    return w.wrap_like(e, norm(t_mul(raw(e), T("pow", n, -1)))) if isinstance(e, Obj) else norm(t_mul(e, T("pow", n, -1)))
+
+
+# ------------------------------------------------------------------------------------------------ R13a
+
+def _canonical(w, lf):
+    return lf is not None and all((c > 0) == (w.index[i].attrs["space"] == "occ") for i, c in lf.items())
+
+
+def r13a(ctx):
+    rule = "R13a"
+    fn = ctx.model.fn(EOd + "canonicalize_sign")
+    good, bad_ = dict(i=1, a=-1), dict(i=-1, a=1)
+    gB1, bB1 = B1, {k: -v for k, v in B1.items()}
+    cases = {
+        "numerator wrong": (bad_, t_mul(B(**gB1), T("pow", B(**B2), 2)), False, True),
+        "numerator wrong, only_denom": (bad_, t_mul(B(**gB1), T("pow", B(**B2), 2)), True, True),
+        "numerator right": (good, B(**gB1), False, True),
+        "virtual numerator wrong": (dict(a=1, b=1), B(**gB1), False, True),
+        "occupied numerator wrong": (dict(i=-2, j=-1), B(**gB1), False, True),
+        "single bracket wrong": (good, B(**bB1), False, True),
+        "odd power wrong": (good, t_mul(B(**gB1), T("pow", B(**bad_), 3)), False, True),
+        "even power wrong": (good, t_mul(B(**gB1), T("pow", B(**bad_), 2)), False, True),
+        "both brackets wrong": (bad_, t_mul(B(**bB1), T("pow", B(**bad_), 3), T("pow", B(k=-1, c=1), 2)), False, True),
+        "single power wrong": (good, T("pow", B(**bB1), 3), True, True),
+        "numbers": (None, 1, False, True),
+        "number numerator": (None, t_mul(B(**bB1), B(**B2)), False, True),
+        "not canonicalisable numerator": (dict(i=1, a=1), B(**gB1), False, False),
+        "not canonicalisable bracket": (good, B(i=-1, a=-1), False, False),
+        "mixed occupied signs": (dict(i=1, j=-1), B(**gB1), False, False),
+    }
+    st = {}
+    for name, (numc, den, only, fine) in cases.items():
+        w = World(IDX)
+        sx = w.make(ctx, "canonicalize_sign")
+
+        def args(numc=numc, den=den, only=only):
+            st["me"] = eo_self(w, Fraction(-1, 2), lin(numc) if numc else 1, norm(den), ERI)
+            st["val"] = eo_value(st["me"])
+            return dict(self=st["me"], only_denom=only)
+        outs = sx.run(fn, args)
+        what = f"canonicalize_sign[{name}]"
+        if not fine:
+            ctx.check(rule, fn, all(o.kind == "raise" for o in outs), f"{what}: signs that no global factor -1 can fix are refused",
+                      f"{what}: a numerator/bracket whose signs cannot be made canonical by a factor -1 is accepted "
+                      f"(left as {fmt(st['me'].attrs['_num'])} / {fmt(st['me'].attrs['_denom'])})", key=f"{name} refused")
+            continue
+        for o in returned(ctx, rule, fn, outs, what, name):
+            me = st["me"]
+            vcheck(ctx, rule, fn, eo_value(me), st["val"], "pref * num / denom unchanged by the sign flips",
+                   f"{what}: pref={me.attrs['_pref']}, num={fmt(me.attrs['_num'])}, denom={fmt(me.attrs['_denom'])}; value changed",
+                   key=f"{name} value")
+            nv = raw(me.attrs["_num"])
+            if numc and not only:
+                ctx.check(rule, fn, _canonical(w, linear_form(nv)), "numerator: occupied energies added, virtual subtracted",
+                          f"{what}: numerator left as {fmt(nv)}", key=f"{name} numerator signs")
+            if numc and only:
+                vcheck(ctx, rule, fn, nv, lin(numc), "only_denom: numerator untouched", f"{what}: numerator", key=f"{name} numerator kept")
+            dv = norm(raw(me.attrs["_denom"]))
+            fs = list(dv.args) if isinstance(dv, T) and dv.op == "mul" else [dv]
+            okd = True
+            for f_ in fs:
+                if is_num(f_):
+                    continue
+                b = f_.args[0] if isinstance(f_, T) and f_.op == "pow" else f_
+                okd = okd and _canonical(w, linear_form(b))
+            ctx.check(rule, fn, okd, "every bracket: occupied energies added, virtual subtracted",
+                      f"{what}: denominator left as {fmt(dv)}", key=f"{name} bracket signs")
+    # the sign word of a term
+    fn = ctx.model.fn(EC + "Term.sign")
+    for pf, want in ((Fraction(-1, 2), "minus"), (-1, "minus"), (1, "plus"), (Fraction(3, 2), "plus")):
+        w = World(IDX)
+        sx = w.make(ctx, "Term.sign")
+        outs = sx.run(fn, lambda pf=pf: dict(self=as_self(w, w.terms_of(w.expr(t_mul(pf, E("i"))))[0], EC + "Term", names=("prefactor",))))
+        for o in returned(ctx, rule, fn, outs, f"Term.sign[{pf}]", f"term sign {pf}"):
+            ctx.check(rule, fn, o.value == want, f"prefactor {pf}: sign '{want}'", f"Term.sign is {o.value!r} for the prefactor {pf}",
+                      key=f"term sign {pf}")
+
+
+# ------------------------------------------------------------------------------------------------ R13h
+
+def r13h(ctx):
+    """EriOrbenergy.cancel_orb_energy_frac: the sum of the partial fractions is the fraction."""
+    rule = "R13h"
+    fn = ctx.model.fn(EOd + "cancel_orb_energy_frac")
+    nB1 = {k: -v for k, v in B1.items()}
+    cases = {
+        "numerator = bracket": (Fraction(1, 4), B(**B1), B(**B1)),
+        "numerator = bracket of two": (1, B(**B1), t_mul(B(**B1), B(**B2))),
+        "weights 2:1": (Fraction(1, 2), norm(t_add(t_mul(2, B(**B1)), B(**B2))), t_mul(B(**B1), B(**B2))),
+        "weights 3:2": (1, norm(t_add(t_mul(3, B(**B3)), t_mul(2, B(**B2)))), t_mul(B(**B3), B(**B2))),
+        "weights 1:2": (1, norm(t_add(B(**B1), t_mul(2, B(**B2)))), t_mul(B(**B1), B(**B2))),
+        "weights 1/2:1": (-2, norm(t_add(t_mul(Fraction(1, 2), B(**B1)), B(**B2))), t_mul(B(**B1), B(**B2))),
+        "leftover energy": (1, norm(t_add(B(**B1), E("k"))), t_mul(B(**B1), B(**B2))),
+        "leftover after two": (3, norm(t_add(B(**B1), B(**B2), E("l"))), t_mul(B(**B1), B(**B2), B(l=1, d=-1))),
+        "squared bracket": (1, B(**B3), t_mul(B(**B1), T("pow", B(**B3), 2))),
+        "single squared bracket": (1, B(**B3), T("pow", B(**B3), 2)),
+        "shared indices": (1, B(i=2, j=1, a=-2, b=-1), t_mul(B(**B1), B(**B3))),
+        "three brackets": (Fraction(1, 3), norm(t_add(B(**B1), t_mul(2, B(**B2)), t_mul(4, B(l=1, d=-1)))),
+                           t_mul(B(**B1), B(**B2), B(l=1, d=-1))),
+        "nothing matches": (1, B(**B2), B(**B1)),
+        "partial match": (1, B(i=1, a=-1), B(**B1)),
+        "signs to fix first": (Fraction(1, 2), B(**nB1), t_mul(B(**B1), B(k=-1, c=1))),
+        "number numerator": (5, 1, t_mul(B(**B1), B(**B2))),
+        "number denominator": (5, B(**B1), 1),
+    }
+    st = {}
+    for name, (pref, num, den) in cases.items():
+        w = World(IDX)
+        w.extra_hooks["factor_and_remove_number"] = lambda sx, a, kw, w=w: _far_model(w, sx, a, kw)
+        sx = w.make(ctx, "cancel_orb_energy_frac")
+
+        def args(pref=pref, num=num, den=den):
+            st["me"] = eo_self(w, pref, norm(num), norm(den), ERI)
+            st["val"] = eo_value(st["me"])
+            return dict(self=st["me"])
+        what = f"cancel_orb_energy_frac[{name}]"
+        for o in returned(ctx, rule, fn, sx.run(fn, args), what, name):
+            vcheck(ctx, rule, fn, o.value, st["val"],
+                   f"{what}: the partial fractions add up to pref * eri * num / denom",
+                   f"{what}: {pref} * [{fmt(norm(num))}] / [{fmt(norm(den))}] is decomposed into terms of a different value: the "
+                   "running prefactor, the bracket that is removed and the numerator that is left do not fit together",
+                   key=f"{name} value")
+            vcheck(ctx, rule, fn, eo_value(st["me"]), st["val"], f"{what}: the instance keeps its value (only signs are canonicalised)",
+                   f"{what}: the instance is modified while cancelling (pref={st['me'].attrs['_pref']}, num={fmt(st['me'].attrs['_num'])}, "
+                   f"denom={fmt(st['me'].attrs['_denom'])})", key=f"{name} instance")
+
+
+# ------------------------------------------------------------------------------------------------ R13b
+
+def _pairs(w, *pp):
+    return tuple(w.idx(*p) for p in pp)
+
+
+def _symmetrised(val, sym_items):
+    """1/(n+1) (X + sum_P f_P P X) over the operations with a factor"""
+    ops = [(perms, f) for perms, f in sym_items if f is not None]
+    parts = [val]
+    for perms, f in ops:
+        m = permutation_map(None, perms)
+        parts.append(t_mul(f, substitute(val, m)))
+    return norm(t_mul(Fraction(1, len(ops) + 1), t_add(*parts)))
+
+
+def _sx_permute_num(ctx, rule, fnref):
+    fn = ctx.model.fn(fnref)
+    lab = fnref.split(":")[1]
+    syms = {
+        "two symmetric": lambda w: [(_pairs(w, "ij", "ab"), 1), (_pairs(w, "kl"), 1)],
+        "antisymmetric": lambda w: [(_pairs(w, "ij"), -1), (_pairs(w, "ab"), -1), (_pairs(w, "ij", "ab"), 1)],
+        "some not common": lambda w: [(_pairs(w, "ij"), None), (_pairs(w, "ij", "ab"), 1), (_pairs(w, "ab"), None)],
+        "none common": lambda w: [(_pairs(w, "ij"), None)],
+        "no symmetry": lambda w: [],
+        "cancels": lambda w: [(_pairs(w, "ia"), 1)],
+    }
+    nums = {"two symmetric": dict(i=1, a=-1), "antisymmetric": dict(i=1, a=-1), "some not common": dict(i=3, a=-1, k=2),
+            "none common": dict(i=1, a=-1), "no symmetry": dict(i=2, a=-2), "cancels": dict(i=1, a=-1)}
+    st = {}
+    for name, mk in syms.items():
+        w = World(IDX)
+        w.extra_hooks["factor_and_remove_number"] = lambda sx, a, kw, w=w: _far_model(w, sx, a, kw)
+
+        def des(sx, a, kw, mk=mk, w=w):
+            st["kw"] = dict(kw.get("kwargs") or {}, **{k: v for k, v in kw.items() if k != "kwargs"})
+            st["pos"] = list(a[1:])
+            st["sym"] = mk(w)
+            return dict(st["sym"])
+        w.extra_hooks["denom_eri_sym"] = des
+        sx = w.make(ctx, lab)
+
+        def args(name=name):
+            st["me"] = eo_self(w, Fraction(-1, 2), lin(nums[name]), B(**B1), ERI)
+            st["sent"] = sym("ERISYM")
+            return dict(self=st["me"], eri_sym=st["sent"])
+        what = f"{lab}[{name}]"
+        for o in returned(ctx, rule, fn, sx.run(fn, args), what, f"{lab} {name}"):
+            me = st["me"]
+            want = t_mul(Fraction(-1, 2), _symmetrised(lin(nums[name]), st["sym"]))
+            got = norm(t_mul(me.attrs["_pref"], raw(me.attrs["_num"])))
+            n = len([1 for _, f in st["sym"] if f is not None])
+            vcheck(ctx, rule, fn, got, want,
+                   f"{what}: pref * num = pref0 * 1/({n}+1) (num0 + sum over the {n} common operations f_P P num0)",
+                   f"{what}: the numerator {fmt(lin(nums[name]))} symmetrised with {fmt([(p, f) for p, f in st['sym']])} gives "
+                   f"pref={me.attrs['_pref']}, num={fmt(me.attrs['_num'])}; expected the normalised sum over the identity and the "
+                   f"{n} operations that leave remainder*denominator invariant, each with its factor", key=f"{lab} {name} normalisation")
+            kw = st.get("kw", {})
+            ctx.check(rule, fn, kw.get("only_contracted") is True and not st["pos"], "only contracted indices are permuted",
+                      f"{what}: the common symmetry is requested with {fmt(kw)} {fmt(st['pos'])} (only_contracted=True expected)",
+                      key=f"{lab} {name} contracted")
+            ctx.check(rule, fn, kw.get("eri_sym") == st["sent"], "the given symmetry of the remainder is used",
+                      f"{what}: eri_sym is not forwarded ({fmt(kw.get('eri_sym'))})", key=f"{lab} {name} eri_sym")
+            lf = linear_form(raw(me.attrs["_num"]))
+            ctx.check(rule, fn, lf is None or not lf or min(abs(c) for c in lf.values()) == 1,
+                      "smallest numerator coefficient moved to the prefactor", f"{what}: numerator left as {fmt(me.attrs['_num'])}",
+                      key=f"{lab} {name} pref")
+    # number numerator: untouched
+    w = World(IDX)
+    w.extra_hooks["denom_eri_sym"] = lambda sx, a, kw: {_pairs(w, "ij"): 1}
+    sx = w.make(ctx, lab)
+
+    def args():
+        st["me"] = eo_self(w, 3, 1, B(**B1), ERI)
+        return dict(self=st["me"], eri_sym=None)
+    for o in returned(ctx, rule, fn, sx.run(fn, args), f"{lab}[number]", f"{lab} number"):
+        vcheck(ctx, rule, fn, eo_value(st["me"]), norm(t_mul(3, ERI, T("pow", B(**B1), -1))), "a number numerator is left alone",
+               f"{lab}[number]", key=f"{lab} number")
+
+
+def _sx_symmetrize(ctx, rule, fnref):
+    fn = ctx.model.fn(fnref)
+    lab = fnref.split(":")[1]
+    X = norm(t_mul(Fraction(1, 2), ERI, tensor("Amplitude", "t2", ("i", "j"), ("a", "b"), 0), E("i")))
+    st = {}
+    for name, mk in (("three operations", lambda w: [(_pairs(w, "ij"), -1), (_pairs(w, "ab"), -1), (_pairs(w, "ij", "ab"), 1)]),
+                     ("one operation", lambda w: [(_pairs(w, "ij", "ab"), 1)]), ("no symmetry", lambda w: [])):
+        w = World(IDX)
+
+        def symh(sx, a, kw, mk=mk, w=w):
+            st["kw"], st["pos"] = dict(kw), list(a[1:])
+            st["sym"] = mk(w)
+            return dict(st["sym"])
+        w.extra_hooks["symmetry"] = symh
+        sx = w.make(ctx, lab)
+        outs = sx.run(fn, lambda: dict(self=as_self(w, w.terms_of(w.expr(X))[0], EC + "Term", names=("sympy", "assumptions"))))
+        what = f"{lab}[{name}]"
+        for o in returned(ctx, rule, fn, outs, what, f"{lab} {name}"):
+            n = len(st["sym"])
+            vcheck(ctx, rule, fn, o.value, _symmetrised(X, st["sym"]),
+                   f"{what}: 1/({n}+1) (X + sum over the {n} operations f_P P X)",
+                   f"{what}: the sum over the identity and the {n} symmetry operations is not normalised by 1/({n}+1) / an "
+                   "operation is applied without its factor", key=f"{lab} {name} normalisation")
+            kw = st.get("kw", {})
+            oc = kw.get("only_contracted", st["pos"][0] if st["pos"] else None)
+            kw = {k: v for k, v in kw.items() if v is not False}
+            ctx.check(rule, fn, oc is True and not kw.get("only_target"), "only contracted indices are permuted",
+                      f"{what}: symmetry requested with {fmt(kw)} {fmt(st['pos'])}", key=f"{lab} {name} contracted")
+
+
+def _sx_derivative(ctx, rule, fnref):
+    """derivative: the contribution of one tensor occurrence is symmetrised with the symmetry of the removed tensor"""
+    fn = ctx.model.fn(fnref)
+    lab = fnref.split(":")[1]
+    REM = tensor("Amplitude", "t2", ("i", "j"), ("a", "b"), 0)
+    st = {}
+    for name, exponent, mk in (("V", 1, lambda w: [(_pairs(w, "ij"), -1), (_pairs(w, "ab"), -1), (_pairs(w, "ij", "ab"), 1)]),
+                               ("V**2", 2, lambda w: [(_pairs(w, "ij", "ab"), 1)]), ("no symmetry", 1, lambda w: [])):
+        w = World(IDX)
+        X = norm(t_mul(Fraction(1, 4), T("pow", ERI, exponent), REM))
+
+        def symh(sx, a, kw, mk=mk, w=w):
+            st["sym"] = mk(w)
+            return dict(st["sym"])
+        w.extra_hooks["symmetry"] = symh
+        w.extra_hooks["minimize_tensor_indices"] = lambda sx, a, kw: (arg(a, kw, 0, "tensor_indices"), ())
+        w.extra_hooks["diff"] = lambda sx, a, kw: T("call", "diff", (raw(a[0]), raw(a[1])), ())
+        w.extra_hooks["Index"] = lambda sx, a, kw: sym("$x")
+        sx = w.make(ctx, lab)
+        outs = sx.run(fn, lambda: dict(expr=w.expr(X, target_idx=()), t_string=NAMES["eri"]))
+        what = f"{lab}[{name}]"
+        for o in returned(ctx, rule, fn, outs, what, f"{lab} {name}"):
+            res = o.value
+            inner = [c.args[1][0] for v in (res.values() if isinstance(res, dict) else []) for c in subterms(raw(v))
+                     if c.op == "call" and c.args[0] == "diff"]
+            if len(inner) != 1:
+                ctx.bad(rule, fn, f"{what}: expected one differentiated contribution, got {fmt(res)}", key=f"{lab} {name} shape")
+                continue
+            n = len(st["sym"])
+            contrib = norm(t_mul(Fraction(1, 4), REM, T("pow", sym("$x"), exponent)))
+            vcheck(ctx, rule, fn, inner[0], _symmetrised(contrib, st["sym"]),
+                   f"{what}: 1/({n}+1) (X + sum over the {n} operations of the removed tensor f_P P X)",
+                   f"{what}: the sum over the identity and the {n} symmetry operations of the removed tensor is not normalised by "
+                   f"1/({n}+1) / an operation is applied without its factor", key=f"{lab} {name} normalisation")
+
+
+_SYMMETRISERS = {EOd + "permute_num": _sx_permute_num, EC + "Term.symmetrize": _sx_symmetrize,
+                 "derivative:derivative": _sx_derivative}
+
+
+def symmetriser_normalisation(ctx, rule, fnref):
+    """A symmetriser `x -> 1/(n+1) (x + sum_P f_P P x)` is evaluated for small symmetry groups and compared with that
+    formula (normalisation by the number of operations + 1, every operation once with its factor)."""
+    if fnref not in _SYMMETRISERS:
+        raise AnalysisError(f"symmetriser_normalisation: no scenario for {fnref}")
+    _SYMMETRISERS[fnref](ctx, rule, fnref)
+
+
+def r13b(ctx):
+    rule = "R13b"
+    for ref in _SYMMETRISERS:
+        symmetriser_normalisation(ctx, rule, ref)
+    # common symmetry of remainder and denominator
+    fn = ctx.model.fn(EOd + "denom_eri_sym")
+    st = {}
+    D12 = norm(t_mul(B(**B1), B(**B2)))
+    table = {
+        "invariant": (D12, lambda w: [(_pairs(w, "ij"), -1), (_pairs(w, "ij", "ab"), 1), (_pairs(w, "ab"), -1)],
+                      lambda s: [f for _, f in s]),
+        "sign change": (B(i=1, k=-1), lambda w: [(_pairs(w, "ik"), 1), (_pairs(w, "ik", "ac"), -1)], lambda s: [-f for _, f in s]),
+        "changed": (D12, lambda w: [(_pairs(w, "ik"), 1), (_pairs(w, "ac"), -1), (_pairs(w, "ij"), 1)], lambda s: [None, None, 1]),
+        "swapped brackets": (norm(t_mul(B(i=1, a=-1), B(k=1, c=-1))), lambda w: [(_pairs(w, "ik", "ac"), 1), (_pairs(w, "ik"), -1)],
+                             lambda s: [1, None]),
+        "squared": (T("pow", B(**B1), 2), lambda w: [(_pairs(w, "ij"), -1), (_pairs(w, "ik"), 1)], lambda s: [-1, None]),
+    }
+    for name, (den, mk, want) in table.items():
+        w = World(IDX)
+        sx = w.make(ctx, "denom_eri_sym")
+
+        def args(den=den, mk=mk):
+            st["me"] = eo_self(w, 1, B(i=1, a=-1), den, ERI)
+            st["sym"] = mk(w)
+            return dict(self=st["me"], eri_sym=dict(st["sym"]), kwargs={})
+        what = f"denom_eri_sym[{name}]"
+        for o in returned(ctx, rule, fn, sx.run(fn, args), what, f"denom_eri_sym {name}"):
+            exp = dict(zip([p for p, _ in st["sym"]], want(st["sym"])))
+            ctx.check(rule, fn, isinstance(o.value, dict) and o.value == exp,
+                      f"{what}: P D = D keeps the factor of the remainder, P D = -D negates it, otherwise None",
+                      f"{what}: for the denominator {fmt(den)} and the remainder symmetry {fmt(st['sym'])} the common symmetry is "
+                      f"{fmt(o.value)}, expected {fmt(exp)}", key=f"denom_eri_sym {name}")
+            vcheck(ctx, rule, fn, st["me"].attrs["_denom"], den, "the denominator of the instance is not modified",
+                   f"{what}: denominator afterwards", key=f"denom_eri_sym {name} pure")
+    # number denominator: the symmetry of the remainder
+    for name, given in (("given", True), ("on the fly", False)):
+        w = World(IDX)
+        w.extra_hooks["symmetry"] = lambda sx, a, kw: st.__setitem__("kw", dict(kw)) or {"marker": 1}
+        sx = w.make(ctx, "denom_eri_sym")
+
+        def args(given=given):
+            st["me"] = eo_self(w, 1, B(i=1, a=-1), 1, ERI)
+            return dict(self=st["me"], eri_sym={"given": 1} if given else None, kwargs={"only_contracted": True})
+        for o in returned(ctx, rule, fn, sx.run(fn, args), f"denom_eri_sym[number, {name}]", f"denom_eri_sym number {name}"):
+            kw = st.get("kw") or {}
+            ok = o.value == ({"given": 1} if given else {"marker": 1}) and \
+                (given or (kw.get("only_contracted") is True and not kw.get("only_target")))
+            ctx.check(rule, fn, ok, f"number denominator, symmetry {name}: the symmetry of the remainder",
+                      f"denom_eri_sym[number, {name}] returns {fmt(o.value)}", key=f"denom_eri_sym number {name}")
+
+
+# ------------------------------------------------------------------------------------------------ R13c
+
+def interp_D(t, salt):
+    """Meaning of the symbolic denominator: D^{upper}_{lower} (SymmetricTensor, bra-ket antisymmetric) stands for
+    1 / (sum of the upper orbital energies - sum of the lower orbital energies)."""
+    if isinstance(t, T) and t.op == "tensor" and t.args[1] == NAMES["sym_orb_denom"]:
+        cls, name, up, lo, bks = t.args
+        if cls != "SymmetricTensor" or bks != -1:
+            return None
+        s = sum((value(E(u), salt) for u in up), Fraction(0)) - sum((value(E(x), salt) for x in lo), Fraction(0))
+        return 1 / s if s != 0 else None
+    return None
+
+
+def _has_D(v):
+    return any(x.op == "tensor" and x.args[1] == NAMES["sym_orb_denom"] for x in subterms(raw(v)))
+
+
+def r13c(ctx):
+    rule = "R13c"
+    D = NAMES["sym_orb_denom"]
+    st = {}
+    # -- writer: explicit brackets -> D tensors
+    fn = ctx.model.fn(EOd + "symbolic_denominator")
+    nB1 = {k: -v for k, v in B1.items()}
+    cases = {"single bracket": B(**B1), "two brackets": t_mul(B(**B1), T("pow", B(**B2), 2)), "single cube": T("pow", B(**B3), 3),
+             "reversed bracket": t_mul(B(**nB1), T("pow", B(k=-1, c=1), 3)), "only added": t_mul(B(i=1, j=1), B(**B2)),
+             "only subtracted": T("pow", B(a=-1, b=-1), 2)}
+    for name, den in cases.items():
+        w = World(IDX)
+        sx = w.make(ctx, "symbolic_denominator")
+
+        def args(den=den):
+            st["me"] = eo_self(w, 1, B(i=1, a=-1), norm(den), ERI)
+            return dict(self=st["me"])
+        what = f"symbolic_denominator[{name}]"
+        for o in returned(ctx, rule, fn, sx.run(fn, args), what, f"writer {name}"):
+            vcheck(ctx, rule, fn, o.value, T("pow", norm(den), -1),
+                   f"{what}: product of D^(added)_(subtracted) ** exponent (SymmetricTensor, bra-ket symmetry -1) = 1 / denominator",
+                   f"{what}: {fmt(norm(den))} is written as a product of tensors that does not stand for 1/denominator (D^(U)_(L) "
+                   "= 1/(sum e_U - sum e_L) must be a SymmetricTensor with bra-ket symmetry -1, the added energies above, the "
+                   "subtracted ones below, raised to the exponent of the bracket)", key=f"writer {name}", interp=interp_D)
+            reg = w.assumptions_of(o.value)["antisym_tensors"] if isinstance(o.value, Obj) else ()
+            ctx.check(rule, fn, D in reg, "the name of the symbolic denominator is registered as bra-ket antisymmetric in the result",
+                      f"{what}: antisym_tensors of the result are {reg}", key=f"writer {name} register")
+    w = World(IDX)
+    sx = w.make(ctx, "symbolic_denominator")
+
+    def args():
+        st["me"] = eo_self(w, 1, 1, 1, ERI, )
+        st["me"].attrs["_denom"] = w.expr(1, antisym_tensors=("x",))
+        return dict(self=st["me"])
+    for o in returned(ctx, rule, fn, sx.run(fn, args), "symbolic_denominator[number]", "writer number"):
+        reg = w.assumptions_of(o.value)["antisym_tensors"] if isinstance(o.value, Obj) else None
+        ctx.check(rule, fn, same_value(o.value, 1) and reg == ("x",), "number denominator: nothing to replace, nothing registered",
+                  f"symbolic_denominator[number] returns {fmt(o.value)} with antisym_tensors {reg}", key="writer number")
+    for name, den in (("coefficient 2", B(i=2, a=-1)), ("coefficient 1/2", t_mul(B(**B1), B(k=Fraction(1, 2), c=-1)))):
+        w = World(IDX)
+        sx = w.make(ctx, "symbolic_denominator")
+        outs = sx.run(fn, lambda den=den: dict(self=eo_self(w, 1, 1, norm(den), ERI)))
+        ctx.check(rule, fn, all(o.kind == "raise" for o in outs), f"bracket with {name}: cannot be written as D, refused",
+                  f"symbolic_denominator accepts the bracket {fmt(norm(den))} (coefficients other than +-1 are lost)", key=f"writer {name}")
+    # -- reader: D tensor -> explicit bracket
+    fn = ctx.model.fn(EC + "Obj.use_explicit_denominators")
+    Dt = tensor("SymmetricTensor", D, ("i", "j"), ("a", "b"), -1)
+    objs = {"D": Dt, "D**2": T("pow", Dt, 2), "D**-1": T("pow", Dt, -1), "D upper only": tensor("SymmetricTensor", D, ("i",), (), -1),
+            "D lower only": T("pow", tensor("SymmetricTensor", D, (), ("a", "b"), -1), 3), "V": ERI, "V**2": T("pow", ERI, 2), "e_i": E("i")}
+    for name, val in objs.items():
+        for rs in (True, False):
+            w = World(IDX)
+            sx = w.make(ctx, "Obj.use_explicit_denominators")
+
+            def args(val=val, rs=rs):
+                ob = w.objects_of(w.terms_of(w.expr(t_mul(TAMP, val), antisym_tensors=(D, "x")))[0])
+                ob = [x for x in ob if same_value(x, val)][0]
+                return dict(self=as_self(w, ob, EC + "Obj", names=("name", "base_and_exponent", "sympy", "antisym_tensors", "assumptions",
+                                                                   "base", "exponent")), return_sympy=rs)
+            what = f"Obj.use_explicit_denominators[{name}{'' if rs else ', wrapped'}]"
+            for o in returned(ctx, rule, fn, sx.run(fn, args), what, f"reader {name} {rs}"):
+                vcheck(ctx, rule, fn, o.value, val, f"{what}: D^(U)_(L)**n -> (sum e_U - sum e_L)**(-n); other objects untouched",
+                       f"{what}: {fmt(val)} is replaced by {fmt(o.value)}, which is not what the symbolic denominator stands for "
+                       "(upper energies added, lower subtracted, exponent negated)", key=f"reader {name} {rs}", interp=interp_D)
+                ctx.check(rule, fn, not _has_D(o.value), "no symbolic denominator left", f"{what}: result {fmt(o.value)} still contains D",
+                          key=f"reader {name} {rs} explicit")
+                if not rs:
+                    reg = w.assumptions_of(o.value)["antisym_tensors"] if isinstance(o.value, Obj) else None
+                    ctx.check(rule, fn, reg == ("x",), "the name of the symbolic denominator is de-registered in the wrapped result",
+                              f"{what}: antisym_tensors of the result are {reg}", key=f"reader {name} deregister")
+    # -- the term with symbolic denominator: D * pref * num * eri
+    fn = ctx.model.fn(EC + "Term.use_symbolic_denominators")
+    w = World(IDX)
+    SD = T("pow", Dt, 2)
+
+    def eo_hook(sx, a, kw):
+        me = eo_self(w, Fraction(-1, 2), B(i=1, a=-1), T("pow", B(**B1), 2), ERI)
+        me.attrs["symbolic_denominator"] = lambda sx_, a_, kw_: w.expr(SD, antisym_tensors=(D,))
+        st["arg"] = arg(a, kw, 0, "term")
+        return me
+    w.extra_hooks["EriOrbenergy"] = eo_hook
+    sx = w.make(ctx, "Term.use_symbolic_denominators")
+
+    def args():
+        st["val"] = norm(t_mul(Fraction(-1, 2), B(i=1, a=-1), T("pow", B(**B1), -2), ERI))
+        st["self"] = as_self(w, w.terms_of(w.expr(st["val"]))[0], EC + "Term", names=("sympy",))
+        return dict(self=st["self"])
+    for o in returned(ctx, rule, fn, sx.run(fn, args), "Term.use_symbolic_denominators", "symbolic product"):
+        vcheck(ctx, rule, fn, o.value, st["val"], "symbolic denominator * pref * num * eri is the term",
+               "Term.use_symbolic_denominators: the term is rebuilt from parts that do not give its value", key="symbolic product",
+               interp=interp_D)
+        reg = w.assumptions_of(o.value)["antisym_tensors"] if isinstance(o.value, Obj) else ()
+        ctx.check(rule, fn, D in reg and st.get("arg") is st["self"], "the result keeps the registration of D; the term itself is split",
+                  f"Term.use_symbolic_denominators: antisym_tensors {reg}", key="symbolic product register")
+    # -- Expr level, both directions
+    for meth, has in (("use_symbolic_denominators", True), ("use_symbolic_denominators", False)):
+        fn = ctx.model.fn(EC + f"Expr.{meth}")
+        w = World(IDX)
+        vals = [norm(t_mul(ERI, T("pow", B(**B1), -1))), norm(t_mul(2, TAMP, T("pow", B(**B2), -2))), norm(t_mul(-1, ERI, TAMP))]
+
+        def inner(sx, a, kw, has=has):
+            t = a[0]
+            k = [i for i, v in enumerate(vals) if same_value(t, v)][0]
+            return w.expr(T("mcall", raw(t), "M", (), ()), antisym_tensors=(D,) if has and k == 1 else ())
+        w.extra_hooks[meth] = inner
+        sx = w.make(ctx, f"Expr.{meth}")
+
+        def args():
+            ex = w.expr(t_add(*vals))
+            st["self"] = as_self(w, ex, EC + "Expr", names=("terms",), _expr=raw(ex), _antisym_tensors=set(), _sym_tensors=set(),
+                                 _target_idx=None, _real=False)
+            return dict(self=st["self"])
+        what = f"Expr.{meth}[{'one term with D' if has else 'no D'}]"
+        for o in returned(ctx, rule, fn, sx.run(fn, args), what, f"Expr.{meth} {has}"):
+            me = st["self"]
+            vcheck(ctx, rule, fn, me.attrs["_expr"], t_add(*[T("mcall", v, "M", (), ()) for v in vals]),
+                   f"{what}: every term converted and added once", f"{what}: the converted terms are not added up once each",
+                   key=f"Expr.{meth} {has} sum")
+            ctx.check(rule, fn, (D in me.attrs["_antisym_tensors"]) == has, "D registered iff a term got a symbolic denominator",
+                      f"{what}: antisym tensors afterwards {sorted(me.attrs['_antisym_tensors'])}", key=f"Expr.{meth} {has} register")
+
+
+# ------------------------------------------------------------------------------------------------ R13d
+
+def _marker(v, meth):
+    return T("mcall", raw(v), meth, (), ())
+
+
+def homomorphism(ctx, rule, method, levels=("Expr", "Term", "Polynom")):
+    """M(sum t) = sum M(t),  M(prod o) = prod M(o),  M((sum t)**n) = (sum M(t))**n  with the arguments of the outer
+    call forwarded to the inner calls (by parameter name) and the inner calls asked for raw values."""
+    inner_cls = {"Expr": "Term", "Term": "Obj", "Polynom": "Term"}
+    vals = [norm(t_mul(Fraction(1, 2), ERI, T("pow", B(**B1), -1))), norm(t_mul(-2, TAMP, E("k"))), norm(t_mul(ERI, TAMP))]
+    pol = T("pow", t_add(*vals), -2)
+    st = {}
+    for level in levels:
+        fn = ctx.model.fn(f"{EC}{level}.{method}")
+        inner = ctx.model.fn(f"{EC}{inner_cls[level]}.{method}")
+        outer_params = [a.arg for a in fn.args.args[1:] + fn.args.kwonlyargs]
+        inner_params = [a.arg for a in inner.args.args[1:] + inner.args.kwonlyargs]
+        for rs in ((True, False) if "return_sympy" in outer_params else (None,)):
+            w = World(IDX)
+            calls = []
+
+            def hook(sx, a, kw, inner=inner, calls=calls):
+                if not (isinstance(a[0], Obj) and a[0].attrs.get("$kind") in ("term", "obj", "polynom")):
+                    return NotImplemented
+                b = sx.bind(inner, list(a), dict(kw), False, True, True)
+                calls.append(b)
+                return _marker(a[0], method)
+            w.extra_hooks[method] = hook
+            sx = w.make(ctx, f"{level}.{method}")
+
+            def args(level=level, rs=rs):
+                del calls[:]
+                sent = {}
+                for p in outer_params:
+                    if p == "return_sympy":
+                        sent[p] = rs
+                    elif p == "target":
+                        sent[p] = w.idx("i", "a")
+                    else:
+                        sent[p] = sym(f"${p}")
+                st["sent"] = sent
+                if level == "Expr":
+                    ex = w.expr(t_add(*vals), antisym_tensors=(NAMES["sym_orb_denom"],))
+                    me = as_self(w, ex, EC + "Expr", names=("terms",), _expr=raw(ex), _antisym_tensors={NAMES["sym_orb_denom"]},
+                                 _sym_tensors=set(), _target_idx=None, _real=False)
+                    st["parts"] = [t.attrs["$value"] for t in me.attrs["terms"]]
+                elif level == "Term":
+                    t = w.terms_of(w.expr(t_mul(*[vals[0], E("c")])))[0]
+                    me = as_self(w, t, EC + "Term", names=("objects", "assumptions", "target", "antisym_tensors", "sym_tensors"))
+                    st["parts"] = [x.attrs["$value"] for x in me.attrs["objects"]]
+                else:
+                    t = w.terms_of(w.expr(t_mul(TAMP, pol)))[0]
+                    po = [x for x in w.objects_of(t) if x.attrs["$kind"] == "polynom"][0]
+                    me = as_self(w, po, EC + "Polynom", names=("terms", "exponent", "assumptions", "term", "antisym_tensors", "sym_tensors"))
+                    st["parts"] = [x.attrs["$value"] for x in me.attrs["terms"]]
+                st["me"] = me
+                return dict(self=me, **sent)
+            what = f"{level}.{method}" + ("" if rs is None else f"[return_sympy={rs}]")
+            for o in returned(ctx, rule, fn, sx.run(fn, args), what, what):
+                ms = [_marker(v, method) for v in st["parts"]]
+                want = t_add(*ms) if level == "Expr" else t_mul(*ms) if level == "Term" else T("pow", t_add(*ms), -2)
+                got = st["me"].attrs["_expr"] if level == "Expr" else o.value
+                shape = {"Expr": "sum over all terms", "Term": "product over all objects",
+                         "Polynom": "(sum over all terms) ** exponent of the polynom"}[level]
+                vcheck(ctx, rule, fn, got, want, f"{what}: {shape} of the converted parts, each once",
+                       f"{what}: the result is not the {shape} of the converted parts", key=f"{what} shape")
+                if level != "Expr" and rs is not None:
+                    ctx.check(rule, fn, isinstance(o.value, Obj) != rs, "raw value iff return_sympy", f"{what}: returns {fmt(o.value)}",
+                              key=f"{what} wrapping")
+                for p in outer_params:
+                    if p in ("return_sympy",) or p not in inner_params:
+                        continue
+                    okf = bool(calls) and all(b.get(p) == st["sent"][p] or b.get(p) is st["sent"][p] for b in calls)
+                    ctx.check(rule, fn, okf, f"{what}: parameter `{p}` forwarded",
+                              f"{what}: parameter `{p}` is not forwarded to the inner calls (they get {fmt([b.get(p) for b in calls])})",
+                              key=f"{what} forward {p}")
+                if "return_sympy" in inner_params:
+                    ctx.check(rule, fn, bool(calls) and all(b.get("return_sympy") is True for b in calls), f"{what}: inner calls return raw values",
+                              f"{what}: inner calls are made with return_sympy={[b.get('return_sympy') for b in calls]}", key=f"{what} raw")
+                yield level, rs, w, st, o
+
+
+def r13d(ctx):
+    rule = "R13d"
+    D = NAMES["sym_orb_denom"]
+    for level, rs, w, st, o in homomorphism(ctx, rule, "use_explicit_denominators"):
+        if level == "Expr":
+            ctx.check(rule, None, D not in st["me"].attrs["_antisym_tensors"], "Expr.use_explicit_denominators: D de-registered",
+                      "Expr.use_explicit_denominators keeps the symbolic denominator registered as antisymmetric tensor",
+                      key="Expr.use_explicit_denominators deregister", fn=EC + "Expr.use_explicit_denominators")
+        elif rs is False:
+            reg = w.assumptions_of(o.value)["antisym_tensors"] if isinstance(o.value, Obj) else None
+            ctx.check(rule, None, reg is not None and D not in reg, f"{level}.use_explicit_denominators: D de-registered in the wrapped result",
+                      f"{level}.use_explicit_denominators: antisym_tensors of the result {reg}", key=f"{level}.use_explicit_denominators deregister",
+                      fn=f"{EC}{level}.use_explicit_denominators")
+    for _ in homomorphism(ctx, rule, "block_diagonalize_fock"):
+        pass
+    for _ in homomorphism(ctx, rule, "expand_antisym_eri"):
+        pass
+    for level, rs, w, st, o in homomorphism(ctx, rule, "expand_intermediates", levels=("Term", "Polynom")):
+        if rs is False:
+            tg = w.assumptions_of(o.value)["target_idx"] if isinstance(o.value, Obj) else None
+            ctx.check(rule, None, tg is not None and tuple(tg) == tuple(st["sent"]["target"]), f"{level}.expand_intermediates: targets set on the result",
+                      f"{level}.expand_intermediates: target indices of the result are {fmt(tg)}", key=f"{level}.expand_intermediates targets",
+                      fn=f"{EC}{level}.expand_intermediates")
+    _expr_accumulate(ctx, rule, "expand_intermediates", dict(fully_expand=sym("$fully_expand")))
+    _obj_expand_antisym_eri(ctx, rule)
+    _obj_expand_intermediates(ctx, rule)
+
+
+def _expr_accumulate(ctx, rule, method, params):
+    """Expr.<method> builds the result from the converted terms (each once) and takes over their target indices."""
+    fn = ctx.model.fn(f"{EC}Expr.{method}")
+    inner = ctx.model.fn(f"{EC}Term.{method}")
+    w = World(IDX)
+    vals = [norm(t_mul(Fraction(1, 2), ERI, T("pow", B(**B1), -1))), norm(t_mul(-2, TAMP, E("k"))), norm(t_mul(ERI, TAMP))]
+    calls, st = [], {}
+
+    def hook(sx, a, kw):
+        if not (isinstance(a[0], Obj) and a[0].attrs.get("$kind") == "term"):
+            return NotImplemented
+        calls.append(sx.bind(inner, list(a), dict(kw), False, True, True))
+        return w.expr(_marker(a[0], method), target_idx=w.idx("i", "a"))
+    w.extra_hooks[method] = hook
+    sx = w.make(ctx, f"Expr.{method}")
+
+    def args():
+        del calls[:]
+        ex = w.expr(t_add(*vals))
+        st["me"] = as_self(w, ex, EC + "Expr", names=("terms",), _expr=raw(ex), _antisym_tensors=set(), _sym_tensors=set(),
+                           _target_idx=None, _real=False)
+        return dict(self=st["me"], **params)
+    what = f"Expr.{method}"
+    for o in returned(ctx, rule, fn, sx.run(fn, args), what, what):
+        me = st["me"]
+        vcheck(ctx, rule, fn, me.attrs["_expr"], t_add(*[_marker(v, method) for v in vals]), f"{what}: every term converted and added once",
+               f"{what}: the result is not the sum of the converted terms, each once", key=f"{what} shape")
+        for p, v in params.items():
+            ctx.check(rule, fn, bool(calls) and all(b.get(p) == v for b in calls), f"{what}: parameter `{p}` forwarded",
+                      f"{what}: parameter `{p}` is not forwarded ({fmt([b.get(p) for b in calls])})", key=f"{what} forward {p}")
+        ctx.check(rule, fn, all(b.get("return_sympy") in (False, None) for b in calls) or not isinstance(me.attrs["_expr"], Obj),
+                  f"{what}: stores a raw value", f"{what}: stores {fmt(me.attrs['_expr'])}", key=f"{what} raw")
+        tg = me.attrs.get("_target_idx")
+        if tg is None:
+            tg = me.attrs["$ass"].get("target_idx")
+        ctx.check(rule, fn, tg is not None and [raw_name(x) for x in tg] == ["i", "a"], f"{what}: target indices of the converted terms kept",
+                  f"{what}: target indices of the result are {fmt(tg)}, the converted terms carry (i, a)", key=f"{what} targets")
+
+
+def _obj_expand_antisym_eri(ctx, rule):
+    fn = ctx.model.fn(EC + "Obj.expand_antisym_eri")
+    V, v = NAMES["eri"], NAMES["coulomb"]
+    spins = {"no spin": ("", "", "", ""), "abab": ("a", "b", "a", "b"), "abba": ("a", "b", "b", "a"), "aaaa": ("a", "a", "a", "a"),
+             "aabb": ("a", "a", "b", "b"), "aaba": ("a", "a", "b", "a"), "abaa": ("a", "b", "a", "a"), "baaa": ("b", "a", "a", "a")}
+    for name, sp in spins.items():
+        for n in (1, 2):
+            for rs in (True, False):
+                w = World({x: "general" + (":" + s if s else "") for x, s in zip("pqrs", sp)})
+                sx = w.make(ctx, "Obj.expand_antisym_eri")
+                val = T("pow", tensor("AntiSymmetricTensor", V, ("p", "q"), ("r", "s"), 1), n)
+
+                def args(val=val, rs=rs):
+                    ob = w.objects_of(w.terms_of(w.expr(val))[0])[0]
+                    return dict(self=as_self(w, ob, EC + "Obj", names=("name", "bra_ket_sym", "idx", "exponent", "sympy", "assumptions",
+                                                                       "base_and_exponent")), return_sympy=rs)
+                parts = []
+                if sp[0] == sp[2] and sp[1] == sp[3]:
+                    parts.append(tensor("SymmetricTensor", v, ("p", "r"), ("q", "s"), 1))
+                if sp[0] == sp[3] and sp[1] == sp[2]:
+                    parts.append(t_mul(-1, tensor("SymmetricTensor", v, ("p", "s"), ("q", "r"), 1)))
+                want = T("pow", t_add(*parts), n) if parts else 0
+                what = f"Obj.expand_antisym_eri[{name}, exponent {n}{'' if rs else ', wrapped'}]"
+                for o in returned(ctx, rule, fn, sx.run(fn, args), what, what):
+                    vcheck(ctx, rule, fn, o.value, want, f"{what}: (<pq||rs>)**n -> ((pr|qs) - (ps|qr))**n with the spin-allowed parts",
+                           f"{what}: expanded to {fmt(o.value)}", key=what)
+                    if not rs:
+                        reg = w.assumptions_of(o.value)["sym_tensors"] if isinstance(o.value, Obj) else ()
+                        ctx.check(rule, fn, (v in reg) == bool(parts), "Coulomb integral registered as symmetric iff it was introduced",
+                                  f"{what}: sym_tensors of the result {reg}", key=what + " register")
+    for name, val, fine in (("other tensor", T("pow", TAMP, 2), True),
+                            ("ERI without bra-ket symmetry", tensor("AntiSymmetricTensor", V, ("i", "j"), ("a", "b"), 0), False)):
+        w = World(IDX)
+        sx = w.make(ctx, "Obj.expand_antisym_eri")
+        outs = sx.run(fn, lambda val=val: dict(self=as_self(w, w.objects_of(w.terms_of(w.expr(val))[0])[0], EC + "Obj",
+                                                          names=("name", "bra_ket_sym", "idx", "exponent", "sympy", "assumptions")),
+                                             return_sympy=True))
+        if fine:
+            for o in returned(ctx, rule, fn, outs, f"Obj.expand_antisym_eri[{name}]", f"Obj.expand_antisym_eri {name}"):
+                vcheck(ctx, rule, fn, o.value, val, "other objects untouched", f"Obj.expand_antisym_eri[{name}]", key=f"Obj.expand_antisym_eri {name}")
+        else:
+            ctx.check(rule, fn, all(o.kind == "raise" for o in outs), "complex ERI (no bra-ket symmetry) refused",
+                      "Obj.expand_antisym_eri expands an ERI without bra-ket symmetry", key=f"Obj.expand_antisym_eri {name}")
+
+
+def _obj_expand_intermediates(ctx, rule):
+    fn = ctx.model.fn(EC + "Obj.expand_intermediates")
+    t2 = tensor("Amplitude", "t2", ("i", "j"), ("a", "b"), 0)
+    st = {}
+    for name, n, known in (("exponent 1", 1, True), ("exponent 2", 2, True), ("exponent 3", 3, True), ("exponent -1", -1, True),
+                           ("exponent -2", -2, True), ("exponent 1/2", Fraction(1, 2), True), ("unknown tensor", 2, False)):
+        for rs in (True, False):
+            w = World(IDX)
+            calls = []
+
+            def expand_itmd(sx, a, kw, calls=calls):
+                from .c13_model import named
+                a2, kw2 = named(sx, "expand_itmd", [None] + list(a), kw)
+                calls.append((a2[1:], kw2))
+                return sym(f"$X{len(calls)}")
+
+            def intermediates(sx, a, kw, known=known, expand_itmd=expand_itmd):
+                it = Obj(None, "itmd")
+                it.attrs.update({"expand_itmd": expand_itmd, "$id": True})
+                reg = Obj(None, "Intermediates")
+                reg.attrs.update({"available": {"LN": it} if known else {}, "$id": True})
+                return reg
+            w.extra_hooks["Intermediates"] = intermediates
+            w.extra_hooks["longname"] = lambda sx, a, kw: "LN"
+            sx = w.make(ctx, "Obj.expand_intermediates")
+
+            def args(n=n, rs=rs):
+                del calls[:]
+                ob = w.objects_of(w.terms_of(w.expr(T("pow", t2, n)))[0])[0]
+                st["idx"] = w.idx("i", "j", "a", "b")
+                return dict(self=as_self(w, ob, EC + "Obj", names=("base", "exponent", "idx", "sympy", "assumptions", "term")),
+                            target=w.idx("i", "a"), return_sympy=rs, fully_expand=sym("$FE"))
+            what = f"Obj.expand_intermediates[{name}{'' if rs else ', wrapped'}]"
+            for o in returned(ctx, rule, fn, sx.run(fn, args), what, what):
+                if not known:
+                    vcheck(ctx, rule, fn, o.value, T("pow", t2, n), "unknown tensor untouched", what, key=what)
+                    continue
+                sep = is_num(n) and Fraction(n).denominator == 1 and n > 1
+                want = t_mul(*[sym(f"$X{k + 1}") for k in range(n)]) if sep else T("pow", sym("$X1"), n)
+                vcheck(ctx, rule, fn, o.value, want,
+                       f"{what}: " + ("product of n separate expansions (fresh contracted indices each)" if sep else "definition ** exponent"),
+                       f"{what}: t2**{n} is expanded to {fmt(o.value)}; " +
+                       ("an intermediate with exponent n > 1 must be expanded once per factor: with a single expansion raised to the "
+                        "power n all factors share the contracted indices of the definition (each summation index occurs 2n times)"
+                        if sep else "the exponent of the object is lost"), key=what)
+                okk = bool(calls) and all(not a and kw.get("return_sympy") is True and kw.get("fully_expand") == sym("$FE")
+                                          and tuple(kw.get("indices", ())) == tuple(st["idx"]) for a, kw in calls)
+                ctx.check(rule, fn, okk, f"{what}: definition expanded on the indices of the object, flag forwarded, raw value requested",
+                          f"{what}: expand_itmd called with {fmt([kw for _, kw in calls])}", key=what + " call")
+                if not rs:
+                    tg = w.assumptions_of(o.value)["target_idx"] if isinstance(o.value, Obj) else None
+                    ctx.check(rule, fn, tg is not None and [raw_name(x) for x in tg] == ["i", "a"], "targets set on the wrapped result",
+                              f"{what}: target indices of the result {fmt(tg)}", key=what + " targets")
+    # objects that are no tensors
+    w = World(IDX)
+    sx = w.make(ctx, "Obj.expand_intermediates")
+    dl = tensor("KroneckerDelta", "delta", ("i", "j"))
+    outs = sx.run(fn, lambda: dict(self=as_self(w, w.objects_of(w.terms_of(w.expr(dl))[0])[0], EC + "Obj",
+                                                names=("base", "exponent", "idx", "sympy", "assumptions", "term")),
+                                   target=None, return_sympy=True, fully_expand=True))
+    for o in returned(ctx, rule, fn, outs, "Obj.expand_intermediates[delta]", "Obj.expand_intermediates delta"):
+        vcheck(ctx, rule, fn, o.value, dl, "non-tensor objects untouched", "Obj.expand_intermediates[delta]", key="Obj.expand_intermediates delta")
+
+
+# ------------------------------------------------------------------------------------------------ R13f
+
+def _fock(p, q, n=1):
+    return T("pow", tensor("AntiSymmetricTensor", NAMES["fock"], (p,), (q,), 1), n)
 
 
 def r13f(ctx):
     rule = "R13f"
+    st = {}
+    # -- block diagonalisation: only f_ov / f_vo vanish
     fn = ctx.model.fn(EC + "Obj.block_diagonalize_fock")
-    vals = {}
-    for a in walk_fn(fn):
-        if isinstance(a, ast.Assign) and U(a.targets[0]) == "bl_diag":
-            cs = conditions(a)
-            keep = any(pol and t.replace(" ", "") in ("space[0]==space[1]or'g'inspace", "'g'inspaceorspace[0]==space[1]") for t, pol in cs)
-            drop = ("space[0] == space[1]", False) in cs and ("'g' in space", False) in cs
-            k = "other" if ("self.name == tensor_names.fock", False) in cs else "diag" if keep else "offdiag" if drop else "?"
-            vals[k] = U(a.value)
-    ctx.check(rule, fn, vals == {"other": "self.sympy", "diag": "self.sympy", "offdiag": "0"},
-              "exactly fock objects with two different specific spaces (ov/vo) are zeroed; general indices keep the element",
-              f"block-diagonalisation table {vals}: an element is zero only if both indices have specific and different spaces "
-              "(f_ip with a general index contains the diagonal block f_ij)", key="block diag")
+    table = [("f_ij", _fock("i", "j"), True), ("f_ab", _fock("a", "b"), True), ("f_ia", _fock("i", "a"), False),
+             ("f_ai", _fock("a", "i"), False), ("f_ia**2", _fock("i", "a", 2), False), ("f_ij**2", _fock("i", "j", 2), True),
+             ("f_ip", _fock("i", "p"), True), ("f_pa", _fock("p", "a"), True), ("f_pq", _fock("p", "q"), True), ("f_ii", _fock("i", "i"), True),
+             ("V_ijab", ERI, True), ("x_ia", tensor("AntiSymmetricTensor", "x", ("i",), ("a",), 0), True), ("e_i", E("i"), True),
+             ("number", Fraction(1, 2), True)]
+    for name, val, keep in table:
+        for rs in (True, False):
+            w = World(IDX)
+            sx = w.make(ctx, "Obj.block_diagonalize_fock")
+            outs = sx.run(fn, lambda val=val, rs=rs: dict(
+                self=as_self(w, w.objects_of(w.terms_of(w.expr(val))[0])[0], EC + "Obj", names=("name", "space", "sympy", "assumptions", "idx")),
+                return_sympy=rs))
+            what = f"Obj.block_diagonalize_fock[{name}{'' if rs else ', wrapped'}]"
+            for o in returned(ctx, rule, fn, outs, what, what):
+                vcheck(ctx, rule, fn, o.value, val if keep else 0,
+                       f"{what}: " + ("kept" if keep else "zero (occupied-virtual block)"),
+                       f"{what}: result {fmt(o.value)}; exactly the Fock elements with two specific and different spaces (f_ov / f_vo) "
+                       "vanish - a general index contains the diagonal block", key=what)
+    # -- diagonalisation of one element
     fn = ctx.model.fn(EC + "Obj.diagonalize_fock")
-    sub = {}
-    for a in walk_fn(fn, nested=False):
-        if isinstance(a, ast.Assign) and isinstance(a.targets[0], ast.Subscript) and U(a.targets[0].value) == "sub":
-            cs = conditions(a)
-            k = "p survived" if ("p is remaining_idx", True) in cs else "q survived" if ("p is remaining_idx", False) in cs else "?"
-            sub[k] = (U(a.targets[0].slice), U(a.value))
-    ctx.check(rule, fn, sub == {"p survived": ("q", "p"), "q survived": ("p", "q")}, "the index that did not survive is replaced by the survivor",
-              f"substitution table {sub}", key="diag sub")
-    dg = [a for a in walk_fn(fn, nested=False) if isinstance(a, ast.Assign) and U(a.targets[0]) == "diag"]
-    ok = len(dg) == 1 and U(dg[0].value).replace(" ", "").replace("\n", "") == "Pow(NonSymmetricTensor(tensor_names.orb_energy,(remaining_idx,)),self.exponent)"
-    ctx.check(rule, fn, ok, "f_pq -> e_p with the exponent kept", "orbital energy replacement changed", key="diag energy")
-    ev = [c for c in calls_in(fn) if call_name(c) == "evaluate_deltas"]
-    ok = len(ev) == 1 and U(ev[0].args[0]) == "self.sympy * delta" and U(kwarg(ev[0], "target_idx", 1)) == "target"
-    ctx.check(rule, fn, ok, "delta evaluated with the term's targets", "evaluate_deltas call changed", key="diag delta")
-    dl = [a for a in common.assigns_to(fn, "delta")]
-    ctx.check(rule, fn, len(dl) == 1 and U(dl[0].value) == "KroneckerDelta(p, q)", "delta between the two fock indices", "delta changed",
-              key="diag delta build")
-    rets = {}
-    for r in common.returns_of(fn, nested=False):
-        cs = conditions(r)
-        k = "notfock" if ("self.name == tensor_names.fock", False) in cs else "zero" if ("delta is S.Zero", True) in cs else \
-            "one" if ("delta is S.One", True) in cs else "noeval" if ("isinstance(result, Mul)", True) in cs else "done"
-        rets[k] = U(r.value)
-    ctx.check(rule, fn, rets == {"notfock": "pack_result(self.sympy, {}, target)", "zero": "pack_result(delta, {}, target)",
-                                 "one": "pack_result(self.sympy, {}, target)", "noeval": "pack_result(self.sympy, {}, target)",
-                                 "done": "pack_result(diag, sub, target)"},
-              "off-diagonal block 0; diagonal element / unevaluable delta kept", f"return table {rets}", key="diag returns")
-    t = ctx.model.fn(EC + "Term.diagonalize_fock")
-    ra = [n for n in walk_fn(t) if isinstance(n, ast.Raise)]
-    ok = any(("any((k in sub and sub[k] != v for k, v in sub_obj.items()))", True) in conditions(n) for n in ra)
-    ctx.check(rule, t, ok, "conflicting substitutions refused", "conflict check changed", key="diag conflict")
-    mul = [n for n in walk_fn(t) if isinstance(n, ast.AugAssign) and U(n.target) == "diag"]
-    ctx.check(rule, t, len(mul) == 1 and isinstance(mul[0].op, ast.Mult) and U(mul[0].value) == "diag_obj", "every object multiplied back",
-              "product rebuild changed", key="diag product")
-    ch = [n for n in walk_fn(t) if isinstance(n, ast.While) and U(n.test) == "new in sub"]
-    ok = len(ch) == 1 and U(ch[0].body[0]) == "new = sub[new]" and isinstance(ch[0]._parent, ast.For) and U(ch[0]._parent.iter) == "sub.items()" \
-        and any(U(x) == "sub[old] = new" for x in ch[0]._parent.body)
-    ctx.check(rule, t, ok, "chains of substitutions (f_ij f_jk) are resolved transitively before the simultaneous substitution",
-              "the substitutions collected from several Fock elements are applied simultaneously without resolving chains: for "
-              "f_ij f_jk the index k is replaced by j instead of i", key="diag chains")
-    upd = [c for c in calls_in(t) if call_name(c) == "update" and U(c.func.value) == "sub"]
-    ctx.check(rule, t, len(upd) == 1 and U(upd[0].args[0]) == "sub_obj", "substitutions collected", "substitution collection changed",
-              key="diag collect")
-    tg = [a for a in walk_fn(t) if isinstance(a, ast.Assign) and U(a.targets[0]) == "assumptions['target_idx']"]
-    ctx.check(rule, t, len(tg) == 1 and U(tg[0].value) == "target", "targets set on the result", "target bookkeeping changed", key="diag targets")
-    e_ = ctx.model.fn(EC + "Expr.diagonalize_fock")
-    lp = [n for n in walk_fn(e_) if isinstance(n, ast.For) and U(n.iter) == "self.terms"]
-    ok = len(lp) == 1 and len(lp[0].body) == 1 and U(lp[0].body[0]) == f"diag += {U(lp[0].target)}.diagonalize_fock()"
-    ctx.check(rule, e_, ok, "every term diagonalised and added once", "Expr.diagonalize_fock loop changed", key="diag expr")
-    tg = [a for a in walk_fn(e_) if isinstance(a, ast.Assign) and U(a.targets[0]) == "self._target_idx"]
-    ctx.check(rule, e_, len(tg) == 1 and U(tg[0].value) == "diag.provided_target_idx", "targets kept", "targets of the result changed",
-              key="diag expr targets")
+    cases = [  # name, value, target, expected (diag, {replaced: survivor})
+        ("f_ij, i target", _fock("i", "j"), ("i",), (E("i"), {"j": "i"})),
+        ("f_ij, j target", _fock("i", "j"), ("j",), (E("j"), {"i": "j"})),
+        ("f_ji, j target", _fock("j", "i"), ("j",), (E("j"), {"i": "j"})),
+        ("f_ij, both contracted", _fock("i", "j"), (), (E("i"), {"j": "i"})),
+        ("f_ij, both target", _fock("i", "j"), ("i", "j"), (_fock("i", "j"), {})),
+        ("f_ab, b target", _fock("a", "b"), ("b",), (E("b"), {"a": "b"})),
+        ("f_ij**2, i target", _fock("i", "j", 2), ("i",), (T("pow", E("i"), 2), {"j": "i"})),
+        ("f_ab**3, contracted", _fock("a", "b", 3), ("i",), (T("pow", E("a"), 3), {"b": "a"})),
+        ("f_ij**-1, i target", _fock("i", "j", -1), ("i",), (T("pow", E("i"), -1), {"j": "i"})),
+        ("f_ia", _fock("i", "a"), (), (0, {})),
+        ("f_ii", _fock("i", "i"), (), (_fock("i", "i"), {})),
+        ("f_ip, p contracted", _fock("i", "p"), ("i",), (E("i"), {"p": "i"})),
+        ("f_ip, i contracted", _fock("i", "p"), ("p",), (_fock("i", "p"), {})),
+        ("V_ijab", ERI, ("i",), (ERI, {})),
+        ("e_i", E("i"), (), (E("i"), {})),
+    ]
+    for name, val, tg, (wd, wsub) in cases:
+        for rs in (True, False):
+            w = World(IDX)
+            sx = w.make(ctx, "Obj.diagonalize_fock")
 
+            def args(val=val, tg=tg, rs=rs):
+                ex = w.expr(t_mul(TAMP, val), target_idx=w.idx(*tg))
+                ob = [x for x in w.objects_of(w.terms_of(ex)[0]) if same_value(x, val)][0]
+                return dict(self=as_self(w, ob, EC + "Obj", names=("name", "idx", "sympy", "exponent", "assumptions", "term", "base")),
+                            target=w.idx(*tg), return_sympy=rs)
+            what = f"Obj.diagonalize_fock[{name}{'' if rs else ', wrapped'}]"
+            for o in returned(ctx, rule, fn, sx.run(fn, args), what, what):
+                res = o.value
+                if not (isinstance(res, tuple) and len(res) == 2 and isinstance(res[1], dict)):
+                    ctx.bad(rule, fn, f"{what}: returns {fmt(res)}", key=what + " shape")
+                    continue
+                sub = {raw_name(k): raw_name(v) for k, v in res[1].items()}
+                okv = True
+                try:
+                    okv = same_value(res[0], wd)
+                except AnalysisError:
+                    okv = False
+                ctx.check(rule, fn, okv and sub == wsub,
+                          f"{what}: f_pq**n -> e_r**n with r the index that survives delta_pq (a contracted index is removed), "
+                          "the removed index is replaced by r; off-diagonal block 0; unevaluable delta: element kept",
+                          f"{what}: result {fmt(res[0])} with substitution {sub}; expected {fmt(wd)} with {wsub}", key=what)
+                if not rs:
+                    t_ = w.assumptions_of(res[0])["target_idx"] if isinstance(res[0], Obj) else None
+                    ctx.check(rule, fn, t_ is not None and [raw_name(x) for x in t_] == list(tg), "targets set on the wrapped result",
+                              f"{what}: target indices of the result {fmt(t_)}", key=what + " targets")
+    # target taken from the term if not given
+    w = World(IDX)
+    sx = w.make(ctx, "Obj.diagonalize_fock")
+
+    def args():
+        ex = w.expr(t_mul(TAMP, _fock("i", "j"), tensor("NonSymmetricTensor", "x", ("j",))))
+        ob = [x for x in w.objects_of(w.terms_of(ex)[0]) if same_value(x, _fock("i", "j"))][0]
+        return dict(self=as_self(w, ob, EC + "Obj", names=("name", "idx", "sympy", "exponent", "assumptions", "term")), target=None, return_sympy=True)
+    for o in returned(ctx, rule, fn, sx.run(fn, args), "Obj.diagonalize_fock[target of the term]", "diag default target"):
+        res = o.value
+        sub = {raw_name(k): raw_name(v) for k, v in res[1].items()} if isinstance(res, tuple) and isinstance(res[1], dict) else None
+        ctx.check(rule, fn, sub == {"j": "i"} and same_value(res[0], E("i")), "targets default to the targets of the term (i): j is removed",
+                  f"Obj.diagonalize_fock[target of the term]: {fmt(res)}", key="diag default target")
+
+    # -- one term: product of the diagonalised objects, substitutions collected, chains resolved
+    fn = ctx.model.fn(EC + "Term.diagonalize_fock")
+    inner = ctx.model.fn(EC + "Obj.diagonalize_fock")
+    X = lambda i: tensor("NonSymmetricTensor", "x", (i,))
+    tcases = {
+        "independent": ([(E("i"), {"j": "i"}), (E("a"), {"b": "a"}), (t_mul(X("j"), X("b")), {})], None),
+        "chain": ([(E("i"), {"j": "i"}), (E("j"), {"k": "j"}), (X("k"), {})], None),
+        "chain reversed": ([(E("j"), {"k": "j"}), (E("i"), {"j": "i"}), (X("k"), {})], None),
+        "long chain": ([(E("k"), {"l": "k"}), (E("i"), {"j": "i"}), (E("j"), {"k": "j"}), (X("l"), {})], None),
+        "same twice": ([(E("i"), {"j": "i"}), (E("i"), {"j": "i"}), (X("j"), {})], None),
+        "nothing": ([(ERI, {}), (TAMP, {})], None),
+        "conflict": ([(E("i"), {"j": "i"}), (E("k"), {"j": "k"}), (X("j"), {})], "NotImplementedError"),
+    }
+    for name, (parts, exc) in tcases.items():
+        for rs, parent in ((True, "expr"), (False, "expr"), (True, "polynom"), (False, "polynom")):
+            w = World(IDX)
+            calls = []
+            sx = w.make(ctx, "Term.diagonalize_fock")
+
+            def args(parts=parts, rs=rs, parent=parent):
+                del calls[:]
+                obs = []
+                for k, (dg, sb) in enumerate(parts):
+                    ob = Obj(None, f"o{k}")
+
+                    def dfo(sx_, a, kw, dg=dg, sb=sb):
+                        calls.append(sx_.bind(inner, [None] + list(a), dict(kw), False, True, True))
+                        return (dg, {w.index[x]: w.index[y] for x, y in sb.items()})
+                    ob.attrs.update({"diagonalize_fock": dfo, "$id": True})
+                    obs.append(ob)
+                val = t_mul(*[p for p, _ in parts])
+                if parent == "expr":
+                    t = w.terms_of(w.expr(val))[0]
+                else:
+                    po = [x for x in w.objects_of(w.terms_of(w.expr(t_mul(TAMP, T("pow", t_add(val, ERI), 2))))[0])
+                          if x.attrs["$kind"] == "polynom"][0]
+                    t = w.terms_of(po)[0]
+                st["tg"] = w.idx("i", "a")
+                return dict(self=as_self(w, t, EC + "Term", names=("assumptions", "expr"), objects=tuple(obs), target=w.idx("l",)),
+                            target=st["tg"], return_sympy=rs)
+            outs = sx.run(fn, args)
+            what = f"Term.diagonalize_fock[{name}, in {parent}{'' if rs else ', wrapped'}]"
+            if exc:
+                ctx.check(rule, fn, all(o.kind == "raise" for o in outs), f"{what}: contradicting substitutions refused",
+                          f"{what}: two Fock elements that replace the same index by different indices are accepted", key=what)
+                continue
+            # independent statement of the expectation: all substitutions closed under chains, applied to the product
+            m = {}
+            for _, sb in parts:
+                m.update(sb)
+            closed = {}
+            for k in m:
+                v, seen = m[k], set()
+                while v in m and v not in seen:
+                    seen.add(v)
+                    v = m[v]
+                closed[k] = v
+            prod = norm(t_mul(*[p for p, _ in parts]))
+            for o in returned(ctx, rule, fn, outs, what, what):
+                res = o.value
+                if parent == "expr":
+                    vcheck(ctx, rule, fn, res, substitute(prod, closed),
+                           f"{what}: product of the diagonalised objects with every removed index replaced by its final survivor",
+                           f"{what}: result {fmt(res)}; expected {fmt(norm(substitute(prod, closed)))}: the substitutions collected "
+                           "from the Fock elements are applied simultaneously, chains (f_ij f_jk: k -> j -> i) have to be resolved "
+                           "before", key=what)
+                    wrapped = res
+                else:
+                    okp = isinstance(res, tuple) and len(res) == 2 and isinstance(res[1], dict)
+                    sub = {raw_name(k): raw_name(v) for k, v in res[1].items()} if okp else None
+                    ctx.check(rule, fn, okp and same_value(res[0], prod) and sub == closed,
+                              f"{what}: product and resolved substitutions handed to the parent term",
+                              f"{what}: returns {fmt(res)}; expected the product {fmt(prod)} and the substitutions {closed}", key=what)
+                    wrapped = res[0] if okp else None
+                if not rs:
+                    t_ = w.assumptions_of(wrapped)["target_idx"] if isinstance(wrapped, Obj) else None
+                    ctx.check(rule, fn, t_ is not None and tuple(t_) == tuple(st["tg"]), "targets set on the wrapped result",
+                              f"{what}: target indices of the result {fmt(t_)}", key=what + " targets")
+                ctx.check(rule, fn, len(calls) == len(parts) and all(b.get("return_sympy") is True and tuple(b.get("target") or ()) == tuple(st["tg"])
+                                                                     for b in calls),
+                          f"{what}: every object diagonalised once with the targets of the term, raw values requested",
+                          f"{what}: inner calls {fmt([{k: v for k, v in b.items() if k != 'self'} for b in calls])}", key=what + " calls")
+    # default target
+    w = World(IDX)
+    calls = []
+    sx = w.make(ctx, "Term.diagonalize_fock")
+
+    def args():
+        del calls[:]
+        ob = Obj(None, "o0")
+        ob.attrs.update({"diagonalize_fock": lambda sx_, a, kw: calls.append(sx_.bind(inner, [None] + list(a), dict(kw), False, True, True)) or (ERI, {}),
+                         "$id": True})
+        st["tg"] = w.idx("k", "c")
+        return dict(self=as_self(w, w.terms_of(w.expr(ERI))[0], EC + "Term", names=("assumptions", "expr"), objects=(ob,), target=st["tg"]),
+                    target=None, return_sympy=False)
+    for o in returned(ctx, rule, fn, sx.run(fn, args), "Term.diagonalize_fock[default target]", "diag term default target"):
+        t_ = w.assumptions_of(o.value)["target_idx"] if isinstance(o.value, Obj) else None
+        ctx.check(rule, fn, t_ is not None and tuple(t_) == tuple(st["tg"]) and calls and tuple(calls[0].get("target") or ()) == tuple(st["tg"]),
+                  "targets default to the targets of the term and are kept on the result",
+                  f"Term.diagonalize_fock[default target]: result targets {fmt(t_)}, inner call target {fmt(calls[0].get('target') if calls else None)}",
+                  key="diag term default target")
+    # -- the expression
+    _expr_accumulate(ctx, rule, "diagonalize_fock", {})
+    fn = ctx.model.fn(EC + "Polynom.diagonalize_fock")
+    w = World(IDX)
+    sx = w.make(ctx, "Polynom.diagonalize_fock")
+    outs = sx.run(fn, lambda: dict(self=Obj(EC + "Polynom", "self"), target=None))
+    ctx.check(rule, fn, all(o.kind == "raise" for o in outs), "polynoms are refused (not silently kept)",
+              "Polynom.diagonalize_fock returns a value", key="polynom refused")
+
+
+# ------------------------------------------------------------------------------------------------ R13g
 
 def r13g(ctx):
     rule = "R13g"
-    for name, add in (("factor_eri_parts", "temp += terms[other_i].subs(sub)"), ("factor_denom", "temp += terms[other_i].permute(*perms)")):
-        fn = ctx.model.fn(f"reduce_expr:{name}")
-        lp = [n for n in walk_fn(fn) if isinstance(n, ast.For) and n._parent is fn]
-        ok = len(lp) == 1
-        if ok:
-            body = [U(s) for s in lp[0].body]
-            ok = body[0] == "temp = e.Expr(terms[i].sympy, **expr.assumptions)" and add in body[1] and body[-1] == "ret.append(temp)"
-        ctx.check(rule, fn, ok, f"{name}: key term once, every matched term once, transformed", f"{name}: bookkeeping changed", key=name)
-        r1 = [r for r in common.returns_of(fn) if ("len(expr) == 1", True) in conditions(r)]
-        ctx.check(rule, fn, len(r1) == 1 and U(r1[0].value) == "[expr]", f"{name}: single term unchanged", f"{name}: trivial case changed",
-                  key=f"{name} trivial")
-    fe = ctx.model.fn("reduce_expr:find_compatible_eri_parts")
-    g = [n for n in walk_fn(fe) if isinstance(n, ast.If) and "contains_only_orb_energies" in U(n.test)]
-    ok = len(g) == 1 and U(g[0].test) == "not o.sympy.is_number and (not o.contains_only_orb_energies)" and U(g[0].body[0]) == "eris *= o"
-    ctx.check(rule, fe, ok, "ERI part = everything but numbers and orbital energies", "ERI part selection changed", key="eri part")
-    tg = [a for a in walk_fn(fe) if isinstance(a, ast.Assign) and U(a.targets[0]) == "assumptions['target_idx']"]
-    ctx.check(rule, fe, len(tg) == 1 and U(tg[0].value) == "term.target", "targets of the full term protect the ERI part",
-              "targets of the ERI part changed", key="eri targets")
-    rd = ctx.model.fn("reduce_expr:reduce_expr")
-    g = [n for n in walk_fn(rd) if isinstance(n, ast.Raise) and any("sub_equal_eri.sympy is S.Zero" in t and pol for t, pol in conditions(n))]
-    ctx.check(rule, rd, len(g) == 1, "substitution that annihilates a term is refused", "zero guard removed", key="zero guard")
-    acc = [n for n in walk_fn(rd) if isinstance(n, ast.AugAssign) and U(n.target) in ("factored", "result", "temp")]
-    got = sorted((U(n.target), U(n.value)) for n in acc)
-    ctx.check(rule, rd, got == [("factored", "term"), ("result", "term.factor()"), ("temp", "expanded_expr[other_i].subs(sub)")],
-              "every sub-expression added once in each stage", f"accumulations {got}", key="stages")
-    ex = [c for c in calls_in(rd) if call_name(c) == "extend" and U(c.func.value) == "expanded_expr"]
-    ctx.check(rule, rd, len(ex) == 1 and U(ex[0].args[0]) == "term", "all ERI classes of every term collected", "collection changed",
-              key="collect")
+    RE = "reduce_expr:"
+    st = {}
+    vals = [norm(t_mul(Fraction(1, 2), ERI, T("pow", B(**B1), -1))), norm(t_mul(-2, TAMP, E("k"))), norm(t_mul(ERI, TAMP)),
+            norm(t_mul(3, ERI, E("i"))), norm(t_mul(TAMP, T("pow", B(**B2), -1)))]
+    # -- grouping by equal remainder / denominator: every term once, transformed by its own operation
+    for name, finder, meth in (("factor_eri_parts", "find_compatible_eri_parts", "subs"), ("factor_denom", "find_compatible_denom", "permute")):
+        fn = ctx.model.fn(RE + name)
+        for gname, groups in (("two groups", {0: {2: "A", 4: "B"}, 1: {3: "C"}}), ("singletons", {0: {}, 1: {}, 2: {}, 3: {}, 4: {}}),
+                              ("one group", {2: {0: "A", 1: "B", 3: "C", 4: "D"}})):
+            w = World(IDX)
+            op = {}
+
+            def find(sx, a, kw, groups=groups, w=w, op=op):
+                st["found"] = (list(a), dict(kw))
+                out = {}
+                for i, d in groups.items():
+                    out[i] = {}
+                    for j, tag in d.items():
+                        # an operation the model can apply: swap of two indices (different per term)
+                        pr = {"A": ("i", "j"), "B": ("a", "b"), "C": ("k", "l"), "D": ("c", "d")}[tag]
+                        op[j] = pr
+                        out[i][j] = [(w.index[pr[0]], w.index[pr[1]]), (w.index[pr[1]], w.index[pr[0]])] if meth == "subs" else (w.idx(*pr),)
+                return out
+            w.extra_hooks[finder] = find
+            sx = w.make(ctx, name)
+
+            def args():
+                op.clear()
+                st["e"] = w.expr(t_add(*vals), real=True, target_idx=w.idx("i", "a"))
+                return dict(expr=st["e"], **({"eri_sym": sym("$eri_sym")} if name == "factor_denom" else {}))
+            what = f"{name}[{gname}]"
+            for o in returned(ctx, rule, fn, sx.run(fn, args), what, what):
+                res = o.value
+                order = [raw(t) for t in w.terms_of(w.expr(t_add(*vals)))]
+                want = []
+                for i, d in groups.items():
+                    want.append(norm(t_add(order[i], *[substitute(order[j], {op[j][0]: op[j][1], op[j][1]: op[j][0]}) for j in d])))
+                okl = isinstance(res, list) and len(res) == len(want)
+                ok = okl and all(same_value(g, x) for g, x in zip(res, want))
+                ctx.check(rule, fn, ok, f"{what}: one sub-expression per key term: the key term plus every matched term transformed by its own "
+                          f"{'substitution' if meth == 'subs' else 'permutation'}, each term exactly once",
+                          f"{what}: got {fmt(res)}; expected {fmt(want)} (a term is lost, counted twice or added untransformed)", key=what)
+                if okl:
+                    ctx.check(rule, fn, all(isinstance(g, Obj) and w.assumptions_of(g).get("real") is True and
+                                            w.assumptions_of(g).get("target_idx") is not None for g in res),
+                              f"{what}: the sub-expressions keep the assumptions of the expression",
+                              f"{what}: assumptions of the sub-expressions {[w.assumptions_of(g) if isinstance(g, Obj) else None for g in res]}",
+                              key=what + " assumptions")
+                if name == "factor_denom":
+                    ctx.check(rule, fn, arg(st["found"][0], st["found"][1], 1, "eri_sym") == sym("$eri_sym"),
+                              "symmetry of the remainder forwarded", f"{what}: find_compatible_denom called with {fmt(st['found'][1])}", key=what + " eri_sym")
+        # single term: unchanged
+        w = World(IDX)
+        sx = w.make(ctx, name)
+        outs = sx.run(fn, lambda: dict(expr=w.expr(vals[0])))
+        for o in returned(ctx, rule, fn, outs, f"{name}[single term]", f"{name} trivial"):
+            ctx.check(rule, fn, isinstance(o.value, list) and len(o.value) == 1 and same_value(o.value[0], vals[0]), f"{name}: single term unchanged",
+                      f"{name}[single term] returns {fmt(o.value)}", key=f"{name} trivial")
+    # -- the remainder of a term: everything but numbers and orbital energies, protected by the targets of the full term
+    fn = ctx.model.fn(RE + "find_compatible_eri_parts")
+    w = World(IDX)
+    w.extra_hooks["find_compatible_terms"] = lambda sx, a, kw: st.__setitem__("parts", list(arg(a, kw, 0, "terms"))) or {"marker": 1}
+    sx = w.make(ctx, "find_compatible_eri_parts")
+    tv = [norm(t_mul(Fraction(-1, 2), ERI, TAMP, E("k"), T("pow", B(**B1), -2), T("pow", E("c"), -1))), norm(t_mul(T("pow", ERI, 2), B(**B3))),
+          norm(t_mul(3, TAMP))]
+    wantp = [norm(t_mul(ERI, TAMP)), T("pow", ERI, 2), TAMP]
+
+    def args():
+        ex = w.expr(t_add(*tv))
+        st["terms"] = list(w.terms_of(ex))
+        return dict(term_list=st["terms"])
+    for o in returned(ctx, rule, fn, sx.run(fn, args), "find_compatible_eri_parts", "eri part"):
+        parts = st.get("parts") or []
+        order = [[k for k, v in enumerate(tv) if same_value(t, v)][0] for t in st["terms"]]
+        ok = len(parts) == len(tv) and all(same_value(p_, wantp[k]) for p_, k in zip(parts, order))
+        ctx.check(rule, fn, ok and o.value == {"marker": 1}, "remainder = all objects but numbers and orbital-energy brackets, compared by find_compatible_terms",
+                  f"find_compatible_eri_parts compares the parts {fmt(parts)}; expected {fmt([wantp[k] for k in order])}", key="eri part")
+        tg = [w.assumptions_of(p_).get("target_idx") if isinstance(p_, Obj) else None for p_ in parts]
+        wt = [[raw_name(x) for x in w.target_of(t)] for t in st["terms"]]
+        ctx.check(rule, fn, len(tg) == len(wt) and all(t is not None and [raw_name(x) for x in t] == x_ for t, x_ in zip(tg, wt)),
+                  "the targets of the full term protect the indices of the remainder",
+                  f"find_compatible_eri_parts: the remainders carry the targets {fmt(tg)}, the terms have {wt}", key="eri targets")
+    outs = sx.run(fn, lambda: dict(term_list=[w.terms_of(w.expr(tv[0]))[0]]))
+    ctx.check(rule, fn, all(o.kind == "return" and o.value == {0: {}} for o in outs), "single term: nothing to compare",
+              f"find_compatible_eri_parts[single] {outs}", key="eri part trivial")
+    # -- reduce_expr: the value is conserved through the three stages
+    _reduce_expr(ctx, rule)
 
 
-def r13h(ctx):
-    """bookkeeping of EriOrbenergy.cancel_orb_energy_frac.cancel"""
+def _reduce_expr(ctx, rule):
+    fn = ctx.model.fn("reduce_expr:reduce_expr")
+    st = {}
+    vals = [norm(t_mul(Fraction(1, 2), ERI, E("i"))), norm(t_mul(-2, TAMP, E("k"))), norm(t_mul(ERI, TAMP))]
+
+    def mk(w, zero=False):
+        def split(rec, k):
+            """the summands of a record in groups of at most k"""
+            v = raw(rec)
+            parts = list(v.args) if isinstance(v, T) and v.op == "add" else [v]
+            return [w.wrap_like(rec, t_add(*parts[i:i + k])) for i in range(0, len(parts), k)]
+
+        def expand_intermediates(sx, a, kw):
+            t = a[0]
+            v = raw(t)
+            return w.wrap_like(t, t_add(t_mul(v, sym("$A")), t_mul(v, sym("$B")), t_mul(v, t_add(1, t_mul(-1, sym("$A")), t_mul(-1, sym("$B"))))))
+
+        def find_parts(sx, a, kw):
+            n = len(arg(a, kw, 0, "term_list"))
+            out = {0: {j: [] for j in range(2, n, 2)}}
+            if n > 1:
+                out[1] = {j: [] for j in range(3, n, 2)}
+            return out
+
+        def eo(sx, a, kw):
+            t = arg(a, kw, 0, "term")
+            me = Obj(None, "eo")
+            res = w.wrap_like(t, raw(t))
+            me.attrs.update({"$id": True, "eri": w.terms_of(w.wrap_like(t, ERI))[0], "num": w.expr(1),
+                             "permute_num": lambda sx_, a_, kw_: me, "cancel_orb_energy_frac": lambda sx_, a_, kw_: res})
+            return me
+        w.extra_hooks.update({
+            "expand_intermediates": expand_intermediates,
+            "factor_eri_parts": lambda sx, a, kw: split(arg(a, kw, 0, "expr"), 2),
+            "factor_denom": lambda sx, a, kw: split(arg(a, kw, 0, "expr"), 1),
+            "substitute_contracted": lambda sx, a, kw: [],
+            "find_compatible_eri_parts": find_parts,
+            "EriOrbenergy": eo,
+            "symmetry": lambda sx, a, kw: {},
+        })
+        if zero:
+            w.extra_hooks["subs"] = lambda sx, a, kw: w.wrap_like(a[0], 0) if isinstance(a[0], Obj) else 0
+        return w
+    w = mk(World(IDX))
+    sx = w.make(ctx, "reduce_expr", max_paths=64)
+    outs = sx.run(fn, lambda: dict(expr=w.expr(t_add(*vals), real=True)))
+    for o in returned(ctx, rule, fn, outs, "reduce_expr", "reduce_expr value"):
+        vcheck(ctx, rule, fn, o.value, t_add(*vals),
+               "reduce_expr: every expanded term reaches the result exactly once (expansion, ERI classes, denominators, cancellation, final factoring)",
+               "reduce_expr: with value-preserving expansion, grouping and cancellation steps the result differs from the input: a "
+               "sub-expression is dropped or added twice between the stages", key="reduce_expr value")
+    w = mk(World(IDX), zero=True)
+    sx = w.make(ctx, "reduce_expr", max_paths=64)
+    outs = sx.run(fn, lambda: dict(expr=w.expr(t_add(*vals), real=True)))
+    ctx.check(rule, fn, all(o.kind == "raise" for o in outs), "a substitution of contracted indices that annihilates a sub-expression is refused",
+              "reduce_expr continues with a sub-expression that its own index substitution turned into 0", key="zero guard")
+    w = mk(World(IDX))
+    sx = w.make(ctx, "reduce_expr", max_paths=64)
+    outs = sx.run(fn, lambda: dict(expr=w.expr(t_add(*vals), real=False)))
+    ctx.check(rule, fn, all(o.kind == "raise" for o in outs), "complex orbitals refused (intermediates are defined for real orbitals)",
+              "reduce_expr accepts an expression that is not real", key="real guard")
+
+
+def run_thorough(ctx):
+    """larger families: all weight / power / leftover combinations for two brackets, all sign patterns of three brackets"""
+    import itertools
     rule = "R13h"
-    fn = ctx.model.fn(EO + "cancel_orb_energy_frac.cancel")
-    loops = [n for n in fn.body if isinstance(n, ast.For)]
-    if len(loops) != 1:
-        raise AnalysisError("cancel: bracket loop not found")
-    lp = loops[0]
-    a = {}
-    for x in walk_fn(fn):
-        if isinstance(x, ast.AugAssign):
-            a.setdefault(U(x.target), []).append((type(x.op).__name__, " ".join(U(x.value).split()), x))
-        elif isinstance(x, ast.Assign):
-            a.setdefault(U(x.targets[0]), []).append(("=", " ".join(U(x.value).split()), x))
-    # running prefactor
-    pm = [t for t in a.get("pref", []) if t[0] == "Mult"]
-    ok = len(pm) == 1 and pm[0][1] == "min_pref" and ("min_pref is S.One", False) in conditions(pm[0][2])
-    ctx.check(rule, fn, ok, "factor pulled out of the numerator is accumulated in the running prefactor",
-              "`pref *= min_pref` (under min_pref != 1) is missing: the factor removed from the numerator is lost for the later "
-              "brackets", key="pref accumulate")
-    nm = [t for t in a.get("num", []) if t[1] == "factor_and_remove_number(num, min_pref)"]
-    ctx.check(rule, fn, len(nm) == 1 and pm and nm[0][2]._parent is pm[0][2]._parent, "numerator divided by the same factor",
-              "numerator is not divided by the factor moved to the prefactor", key="num divide")
-    sub = [t for t in a.get("num", []) if t[0] == "Sub"]
-    ctx.check(rule, fn, len(sub) == 1 and sub[0][1] == "base", "cancelled bracket subtracted from the numerator", "numerator update changed",
-              key="num subtract")
-    adds = [t for t in a.get("cancelled_result", []) if t[0] == "Add"]
-    vals = sorted(t[1] for t in adds)
-    want_main = "pref * self.eri / multiply(new_denom)"
-    want_left = "pref * self.eri * num / multiply(denom)"
-    ctx.check(rule, fn, want_main in vals, "cancelled part: running pref * eri / (denominator without the bracket)",
-              f"contribution of a cancelled bracket is {vals}; it must use the running prefactor `pref` (not self.pref) and the "
-              "denominator without the cancelled bracket", key="cancelled part")
-    ctx.check(rule, fn, all(v in (want_main, want_left) for v in vals), "only the two documented contributions are added",
-              f"unexpected contribution {[v for v in vals if v not in (want_main, want_left)]}", key="contributions")
-    # the leftover numerator must be added on every way out of the loop
-    left = [t[2] for t in adds if t[1] == want_left]
-    in_break = [x for x in left if any(isinstance(s2, ast.Break) for s2 in getattr(x._parent._parent, "body", []))
-                or any(isinstance(s2, ast.Break) for s2 in getattr(x._parent, "body", []))]
-    after = [x for x in left if any(x is y for st in lp.orelse for y in ast.walk(st))] + \
-        [x for x in left if x.lineno > lp.end_lineno]
-    ctx.check(rule, lp, bool(in_break), "numerator reduced to a number: remainder added, loop left", "number remainder handling changed",
-              key="leftover number")
-    ctx.check(rule, lp, bool(after), "all brackets tried: the part of the numerator that is left is added over the full denominator",
-              "when the loop over the brackets ends without `break`, the leftover (non-constant) numerator over the full denominator is "
-              "never added: a part of the term is dropped", key="leftover after loop")
-    nd = {t[1] for t in a.get("new_denom", [])} | {t[1] for t in a.get("new_denom[bracket_i]", [])}
-    ctx.check(rule, fn, nd == {"denom[:bracket_i] + denom[bracket_i + 1:]", "denom[:]", "e.Expr(Pow(base, exponent - 1), **bracket.assumptions)"},
-              "bracket exponent lowered by one / bracket removed", f"new denominator built as {sorted(nd)}", key="new denom")
-    sk = [n for n in walk_fn(lp) if isinstance(n, ast.Continue)]
-    ctx.check(rule, lp, len(sk) == 1 and U(sk[0]._parent.test) == "len(relevant_prefs) != len(bracket_indices)",
-              "a bracket is cancelled only if all its orbital energies occur in the numerator", "bracket applicability test changed",
-              key="applicable")
-    r = common.returns_of(fn)
-    ctx.check(rule, fn, U(r[-1].value) == "self.expr if cancelled_result is None else cancelled_result", "nothing cancelled: term unchanged",
-              "return of cancel changed", key="return")
-    top = ctx.model.fn(EO + "cancel_orb_energy_frac")
-    c = [x for x in calls_in(top, nested=False) if call_name(x) == "cancel"]
-    ctx.check(rule, top, len(c) == 1 and [U(z) for z in c[0].args] == ["self.num", "denom", "self.pref"], "cancel(num, sorted brackets, pref)",
-              "cancel arguments changed", key="cancel args")
-    cs = [x for x in calls_in(top, nested=False) if call_name(x) == "canonicalize_sign"]
-    ctx.check(rule, top, len(cs) == 1 and cs[0].lineno < c[0].lineno if c else False, "signs canonicalised before cancelling",
-              "sign canonicalisation missing", key="sign first")
+    fn = ctx.model.fn(EOd + "cancel_orb_energy_frac")
+    st = {}
+    if ctx.want(rule):
+        ws = (Fraction(1, 2), 1, 2, 3)
+        for w1, w2, e1, e2, left in itertools.product(ws, ws, (1, 2), (1, 2), (None, "l", "k")):
+            w = World(IDX)
+            w.extra_hooks["factor_and_remove_number"] = lambda sx, a, kw, w=w: _far_model(w, sx, a, kw)
+            sx = w.make(ctx, "cancel_orb_energy_frac")
+            num = norm(t_add(t_mul(w1, B(**B1)), t_mul(w2, B(**B2)), *([E(left)] if left else [])))
+            den = norm(t_mul(T("pow", B(**B1), e1), T("pow", B(**B2), e2)))
+
+            def args(num=num, den=den):
+                st["me"] = eo_self(w, Fraction(-1, 3), num, den, ERI)
+                st["val"] = eo_value(st["me"])
+                return dict(self=st["me"])
+            name = f"{w1} B1 + {w2} B2{' + e_' + left if left else ''} over B1**{e1} B2**{e2}"
+            for o in returned(ctx, rule, fn, sx.run(fn, args), f"cancel_orb_energy_frac[{name}]", f"thorough {name}"):
+                vcheck(ctx, rule, fn, o.value, st["val"], f"cancel_orb_energy_frac[{name}]: partial fractions add up to the fraction",
+                       f"cancel_orb_energy_frac[{name}]: the decomposition has a different value", key=f"thorough {name}")
+    rule = "R13a"
+    fn = ctx.model.fn(EOd + "canonicalize_sign")
+    if ctx.want(rule):
+        brs = (B1, B2, dict(l=1, d=-1))
+        for signs, exps, nsign, only in itertools.product(itertools.product((1, -1), repeat=3), ((1, 1, 1), (1, 2, 3), (2, 2, 1)), (1, -1),
+                                                          (False, True)):
+            w = World(IDX)
+            sx = w.make(ctx, "canonicalize_sign")
+            den = norm(t_mul(*[T("pow", B(**{k: v * s_ for k, v in b.items()}), e) for b, s_, e in zip(brs, signs, exps)]))
+
+            def args(den=den, nsign=nsign, only=only):
+                st["me"] = eo_self(w, Fraction(2, 3), B(i=nsign, a=-nsign), den, ERI)
+                st["val"] = eo_value(st["me"])
+                return dict(self=st["me"], only_denom=only)
+            name = f"signs {signs} powers {exps} numerator {nsign} only_denom={only}"
+            for o in returned(ctx, rule, fn, sx.run(fn, args), f"canonicalize_sign[{name}]", f"thorough {name}"):
+                me = st["me"]
+                vcheck(ctx, rule, fn, eo_value(me), st["val"], f"canonicalize_sign[{name}]: value unchanged",
+                       f"canonicalize_sign[{name}]: value changed", key=f"thorough {name} value")
+                dv = norm(raw(me.attrs["_denom"]))
+                fs = list(dv.args) if isinstance(dv, T) and dv.op == "mul" else [dv]
+                okd = all(_canonical(w, linear_form(f_.args[0] if isinstance(f_, T) and f_.op == "pow" else f_)) for f_ in fs if not is_num(f_))
+                okn = only or _canonical(w, linear_form(raw(me.attrs["_num"])))
+                ctx.check(rule, fn, okd and okn, f"canonicalize_sign[{name}]: canonical signs", f"canonicalize_sign[{name}]: left as "
+                          f"{fmt(me.attrs['_num'])} / {fmt(dv)}", key=f"thorough {name} signs")
 
 
 def run(ctx):
